@@ -5,7 +5,9 @@ import ast
 
 from ..core import Ctx
 from ..cfg import call_may_raise
-from ..match import _atoms_with_polarity, arg, call_name, calls, expr_context_facts, fact_of, facts_at, local_defs, resolve, single_def, stores
+from ..match import Fact, arg, call_name, calls, stores
+from ..match import _atoms_with_polarity as _engine_atoms_with_polarity, expr_context_facts as _engine_expr_context_facts
+from ..match import fact_of as _engine_fact_of, facts_at as _engine_facts_at, local_defs as _engine_local_defs
 from ..model import AnalysisError, FuncInfo, ancestors, chain, clone, const_value, enclosing_stmt, head, norm, parent, strip_cast, walk_no_nested
 
 LEVEL = "other"
@@ -23,13 +25,111 @@ EXPLANATION = (
     "and target == peer.mid. Locals are followed through their definitions, guards are taken from dominating facts; a "
     "guard, lookup or result that lives in a helper (decision helper answering bool / reason / tag / tuple, validator that "
     "raises, dispatch table, generator, acting helper) is followed into the helper with its parameters bound to the "
-    "arguments, and tests of flag locals are correlated with the values the flag was last given. Interleavings with clock "
-    "advances are not explored."
+    "arguments, and tests of flag locals are correlated with the values the flag was last given. Result objects (NamedTuple / "
+    "dataclass / Enum member, tuple) returned by decision helpers are read by component: a test of `verdict.ok` or of a match "
+    "subject against enumeration members is a test of what each return of the helper put there (case split over the returns "
+    "when no single test dominates); a component of a locally built result object is the expression it was built from. "
+    "Iterables are compared as generator expressions: map / filter / filterfalse / partial / lambda / operator.* / methodcaller "
+    "/ itemgetter, generator helpers and small callable classes are written out, any / all / next(.., False) / reduce(or) are "
+    "one quantifier; a for loop over such a pipeline binds its target to the pipeline's element. Lookups may be list.index "
+    "(raises), next() searches (None / negative `not found` answer, which must be excluded before it is used as a position), "
+    "`in` / .get() tests or a caught KeyError. The token pre-image may be assembled by +, b''.join, %-formatting or by feeding "
+    "a hash object. When a gate can only live behind a call the analysis cannot look into, or a selection / sweep has none of "
+    "the recognised structures, the answer is `undecided` (exit 2), not a violation. Interleavings with clock advances are not "
+    "explored."
 )
 
 DC = "ipv8/dht/community.py"
 DS = "ipv8/dht/storage.py"
 DD = "ipv8/dht/discovery.py"
+
+
+# ------------------------------------------------------------------------------------------------ facts
+_OPERATOR_FACTS = {"lt": ast.Lt, "le": ast.LtE, "gt": ast.Gt, "ge": ast.GtE, "eq": ast.Eq, "ne": ast.NotEq, "is_": ast.Is, "is_not": ast.IsNot}
+
+
+def _canon_fact(f: Fact) -> Fact:
+    """a truthy test of operator.ge(a, b) / a.__ge__(b) / operator.not_(x) / operator.contains(c, x) is the fact of the
+    comparison it spells (the place of the fact stays the written test)"""
+    for _ in range(3):
+        c = f.left if f.op == "truthy" and isinstance(f.left, ast.Call) and not f.left.keywords else None
+        if c is None:
+            return f
+        name = chain(c.func) or ""
+        mod, _, fn = name.rpartition(".")
+        new = None
+        if mod == "operator" and fn in _OPERATOR_FACTS and len(c.args) == 2:
+            new = ast.Compare(left=c.args[0], ops=[_OPERATOR_FACTS[fn]()], comparators=[c.args[1]])
+        elif mod == "operator" and fn == "contains" and len(c.args) == 2:
+            new = ast.Compare(left=c.args[1], ops=[ast.In()], comparators=[c.args[0]])
+        elif mod == "operator" and fn in ("not_", "truth") and len(c.args) == 1:
+            g = _engine_fact_of(c.args[0], f.pos if fn == "truth" else not f.pos)
+            g.atom = f.atom
+            f = g
+            continue
+        elif isinstance(c.func, ast.Attribute) and len(c.args) == 1 and c.func.attr in ("__lt__", "__le__", "__gt__", "__ge__", "__eq__", "__ne__"):
+            new = ast.Compare(left=c.func.value, ops=[_OPERATOR_FACTS[c.func.attr.strip("_")]()], comparators=[c.args[0]])
+        elif isinstance(c.func, ast.Attribute) and len(c.args) == 1 and c.func.attr == "__contains__":
+            new = ast.Compare(left=c.args[0], ops=[ast.In()], comparators=[c.func.value])
+        if new is None:
+            return f
+        g = _engine_fact_of(new, f.pos)
+        g.atom = f.atom
+        return g
+    return f
+
+
+def fact_of(atom: ast.AST, pol: bool) -> Fact:
+    return _canon_fact(_engine_fact_of(atom, pol))
+
+
+def _atoms_with_polarity(e: ast.AST, pol: bool) -> list:
+    return [_canon_fact(f) for f in _engine_atoms_with_polarity(e, pol)]
+
+
+def expr_context_facts(site: ast.AST) -> list:
+    return [_canon_fact(f) for f in _engine_expr_context_facts(site)]
+
+
+def facts_at(cfg, site) -> list:
+    return [_canon_fact(f) for f in _engine_facts_at(cfg, site)]
+
+
+# ------------------------------------------------------------------------------------------------ definitions of locals
+def local_defs(fi: FuncInfo, name: str):
+    """the engine's local_defs without the statements that leave the local as it is: `x = x`, and the `x` slot of
+    `tag, x = (TAG, x)` (what is left of a decision helper that hands its argument back next to its answer)"""
+    out = []
+    for st, val, idx in _engine_local_defs(fi, name):
+        v = strip_cast(val) if val is not None else None
+        if idx is None and isinstance(v, ast.Name) and v.id == name and isinstance(st, (ast.Assign, ast.AnnAssign)):
+            continue
+        out.append((st, val, idx))
+    return out
+
+
+def single_def(fi: FuncInfo, name: str):
+    """(value, tuple_index) if `name` is a non-parameter local assigned exactly once, else None."""
+    if name in fi.params():
+        return None
+    d = local_defs(fi, name)
+    if len(d) == 1 and d[0][1] is not None:
+        return d[0][1], d[0][2]
+    return None
+
+
+def resolve(fi: FuncInfo, expr: ast.AST, depth: int = 4) -> ast.AST:
+    """Follow single-assignment local aliases: `x = self.t.get(k)` ... `x` -> the `get` call."""
+    if expr is None:
+        return None
+    expr = strip_cast(expr)
+    while depth > 0 and isinstance(expr, ast.Name):
+        d = single_def(fi, expr.id)
+        if d is None or d[1] is not None:
+            break
+        expr = strip_cast(d[0])
+        depth -= 1
+    return expr
 
 
 # ------------------------------------------------------------------------------------------------ small helpers
@@ -39,6 +139,14 @@ def _unwrap_iter(e: ast.AST) -> ast.AST:
     e = strip_cast(e)
     while isinstance(e, ast.Call) and isinstance(e.func, ast.Name) and e.func.id in ("list", "tuple", "sorted", "reversed", "iter") \
             and len(e.args) == 1 and not e.keywords:
+        e = strip_cast(e.args[0])
+    return e
+
+
+def _unwrap_copy(e: ast.AST) -> ast.AST:
+    """list(x) / tuple(x) / iter(x) -> x: the same elements in the same order (for rules that talk about positions)"""
+    e = strip_cast(e)
+    while isinstance(e, ast.Call) and isinstance(e.func, ast.Name) and e.func.id in ("list", "tuple", "iter") and len(e.args) == 1 and not e.keywords:
         e = strip_cast(e.args[0])
     return e
 
@@ -65,14 +173,41 @@ def _assignments(fi: FuncInfo):
             yield n, [n.target], n.value
 
 
-def _reaching_def(fi: FuncInfo, name: str, cfg, site: ast.AST):
+def _loop_binding(ctx: Ctx | None, fi: FuncInfo, loop: ast.AST, name: str):
+    """(expression, tuple index) a for loop gives to `name` in every iteration: the element its iterable yields, written as
+    an expression when the iterable is a pipeline / comprehension / generator helper (`for d, k, v in map(f, X)`: an
+    element of f(x)); None when the element is not an expression of this kind"""
+    if not isinstance(loop, ast.For) or loop.orelse and False:
+        return None
+    gen = _as_genexp(ctx, fi, loop.iter)
+    if gen is None:
+        return None
+    t, elt = loop.target, gen.elt
+    if isinstance(t, ast.Name):
+        return (elt, None) if t.id == name else None
+    if isinstance(t, (ast.Tuple, ast.List)):
+        for i, x in enumerate(t.elts):
+            if isinstance(x, ast.Name) and x.id == name:
+                if isinstance(elt, ast.Tuple) and len(elt.elts) == len(t.elts) and not any(isinstance(y, ast.Starred) for y in elt.elts):
+                    return elt.elts[i], None
+                return (elt, i) if not any(isinstance(y, ast.Starred) for y in t.elts) else None
+    return None
+
+
+def _reaching_def(fi: FuncInfo, name: str, cfg, site: ast.AST, ctx: Ctx | None = None):
     """(value, tuple index) of the only definition of local `name` that reaches `site` (None when there is not exactly one,
-    or when the function can reach the site without defining the name)."""
+    or when the function can reach the site without defining the name).  With ctx, the target of a for loop over a
+    pipeline is defined by the element the pipeline yields."""
     if name in fi.params():
         return None
     defs = local_defs(fi, name)
+
+    def value_of(d):
+        if d[1] is not None:
+            return d[1], d[2]
+        return _loop_binding(ctx, fi, d[0], name) if ctx is not None else None
     if len(defs) == 1:
-        return (defs[0][1], defs[0][2]) if defs[0][1] is not None else None
+        return value_of(defs[0])
     if cfg is None or site is None or not defs:
         return None
     sn = cfg.nodes_for(site)
@@ -86,12 +221,43 @@ def _reaching_def(fi: FuncInfo, name: str, cfg, site: ast.AST):
         r = cfg.reach([v for n in dn[i] for v, lab in n.succ if lab != "exc"], cut_nodes=others)
         if any(s in r for s in sn):
             hit.append(d)
-    if len(hit) == 1 and hit[0][1] is not None:
-        return hit[0][1], hit[0][2]
+    if len(hit) == 1:
+        return value_of(hit[0])
     return None
 
 
-def _elem_of(fi: FuncInfo, e: ast.AST | None, cfg=None, site: ast.AST | None = None):
+def _unser_field_index(ctx: Ctx | None) -> dict:
+    """{field name: position} when unserialize_value answers with a three-field result object (a NamedTuple is still the
+    (data, key, version) tuple; its users may name the elements instead of unpacking them); {} for plain tuples"""
+    if ctx is None:
+        return {}
+    cached = getattr(ctx, "_c15_unser_fields", None)
+    if cached is None:
+        cached = {}
+        try:
+            uv = ctx.repo.method("DHTCommunity", "unserialize_value", DC)
+        except Exception:  # noqa: BLE001
+            uv = None
+        todo, seen = [uv] if uv is not None else [], set()
+        while todo and len(seen) < 6:
+            h = todo.pop()
+            if id(h.node) in seen:
+                continue
+            seen.add(id(h.node))
+            for r in _returns(h):
+                v = resolve(h, r.value) if r.value is not None else None
+                for x in ([v.body, v.orelse] if isinstance(v, ast.IfExp) else [v]):
+                    x = resolve(h, x) if x is not None else None
+                    f = _ctor_fields(ctx.repo, h, x) if isinstance(x, ast.Call) else None
+                    if f is not None and len(f[None]) == 3:
+                        cached = {nm: i for i, nm in enumerate(f[None])}
+                    elif isinstance(x, ast.Call):
+                        todo += [t for t, _ in (_call_targets(ctx, h, x) or [])]
+        setattr(ctx, "_c15_unser_fields", cached)
+    return cached
+
+
+def _elem_of(fi: FuncInfo, e: ast.AST | None, cfg=None, site: ast.AST | None = None, ctx: Ctx | None = None):
     """(resolved tuple expression, index) when e denotes one element of a tuple value: `a, b, c = X` ... `b`, or `X[1]`.
     With a cfg, a name with several definitions is followed to the one definition that reaches `site`."""
     if e is None:
@@ -99,15 +265,21 @@ def _elem_of(fi: FuncInfo, e: ast.AST | None, cfg=None, site: ast.AST | None = N
     e = strip_cast(e)
     for _ in range(5):
         if isinstance(e, ast.Name):
-            d = _reaching_def(fi, e.id, cfg, site)
+            d = _reaching_def(fi, e.id, cfg, site, ctx)
             if d is None:
                 return None
             if d[1] is not None:
-                return resolve(fi, d[0]), d[1]
+                v = resolve(fi, d[0])
+                if isinstance(v, ast.Call) and isinstance(v.func, ast.Call) and chain(v.func.func) in ("itemgetter", "operator.itemgetter") \
+                        and len(v.args) == 1 and not v.keywords and len(v.func.args) > max(1, d[1]) and type(const_value(v.func.args[d[1]])) is int:
+                    return resolve(fi, v.args[0]), const_value(v.func.args[d[1]])      # a, b = itemgetter(1, 2)(X)
+                return v, d[1]
             e = strip_cast(d[0])
             continue
         if isinstance(e, ast.Subscript) and type(const_value(e.slice)) is int:
             return resolve(fi, e.value), const_value(e.slice)
+        if isinstance(e, ast.Attribute) and e.attr in _unser_field_index(ctx):
+            return resolve(fi, e.value), _unser_field_index(ctx)[e.attr]
         return None
     return None
 
@@ -117,6 +289,24 @@ def _truth_fact(f, pred) -> bool:
     if f.op == "truthy" and f.pos and pred(f.left):
         return True
     return f.op == "is" and not f.pos and _is_none(f.right) and pred(f.left)
+
+
+def _int_bound(f, is_x):
+    """what a fact says about the integer x (is_x recognises it) compared with an integer constant c:
+    ("lt", c): x < c,  ("ge", c): x >= c,  ("eq", c),  ("ne", c);  None when the fact is not of this kind"""
+    if f is None or f.right is None:
+        return None
+    cl, cr = const_value(strip_cast(f.left)), const_value(strip_cast(f.right))
+    if f.op == "lt":
+        if type(cr) is int and is_x(f.left):
+            return ("lt", cr) if f.pos else ("ge", cr)
+        if type(cl) is int and is_x(f.right):
+            return ("ge", cl + 1) if f.pos else ("lt", cl + 1)
+    if f.op == "eq":
+        for a, c in ((f.left, cr), (f.right, cl)):
+            if type(c) is int and is_x(a):
+                return ("eq" if f.pos else "ne", c)
+    return None
 
 
 def _cond_edge_fact(u, lab):
@@ -270,6 +460,143 @@ def _call_targets(ctx: Ctx, fi: FuncInfo, call: ast.Call):
     return ts
 
 
+def _bind_call(node_args: ast.arguments, call: ast.Call, skip_first: bool):
+    """{parameter: argument expression} of a call (defaults filled in); None when the binding is not plain"""
+    if any(isinstance(a, ast.Starred) for a in call.args) or any(k.arg is None for k in call.keywords) or node_args.vararg or node_args.kwarg:
+        return None
+    pos = [a.arg for a in node_args.posonlyargs + node_args.args]
+    if skip_first:
+        pos = pos[1:]
+    if len(call.args) > len(pos):
+        return None
+    env = dict(zip(pos, call.args))
+    names = pos + [a.arg for a in node_args.kwonlyargs]
+    for k in call.keywords:
+        if k.arg not in names or k.arg in env:
+            return None
+        env[k.arg] = k.value
+    allpos = [a.arg for a in node_args.posonlyargs + node_args.args]
+    for nm, d in zip(allpos[len(allpos) - len(node_args.defaults):], node_args.defaults):
+        env.setdefault(nm, d)
+    for a, d in zip(node_args.kwonlyargs, node_args.kw_defaults):
+        if d is not None:
+            env.setdefault(a.arg, d)
+    return env if all(n in env for n in names) else None
+
+
+def _ctor_fields(repo, fi: FuncInfo, call: ast.AST | None):
+    """{field: expression} of a result object built as `Cls(a, b, k=c)`: Cls is a class of this code with annotated fields
+    and no constructor of its own (NamedTuple / dataclass: the fields in order, with their defaults), or a class whose
+    __init__ only stores its parameters (`self.f = <expression of the parameters>`); also the positional order of the
+    fields under the key None.  None when call is not such a construction."""
+    call = strip_cast(call) if call is not None else None
+    if not isinstance(call, ast.Call) or not isinstance(call.func, ast.Name) or _is_local(fi, call.func.id):
+        return None
+    cls = repo.resolve_name(fi.module, call.func.id)
+    if cls is None or not hasattr(cls, "methods") or not hasattr(cls, "mro"):
+        return None
+    init = cls.lookup("__init__")
+    if init is not None:
+        env = _bind_call(init.node.args, call, True)
+        if env is None:
+            return None
+        out, order = {}, []
+        for st in init.node.body:
+            if isinstance(st, ast.Expr) and isinstance(st.value, ast.Constant):
+                continue
+            tg = st.targets if isinstance(st, ast.Assign) else [st.target] if isinstance(st, ast.AnnAssign) and st.value is not None else None
+            if not tg or len(tg) != 1 or not (isinstance(tg[0], ast.Attribute) and chain(tg[0].value) == init.params()[0]) or tg[0].attr in out:
+                return None
+            if any(isinstance(n, ast.Name) and n.id not in env and (n.id == init.params()[0] or n.id in _bound_names(init.node)) for n in ast.walk(st.value)):
+                return None
+            out[tg[0].attr] = _subst(st.value, env, {})
+            order.append(tg[0].attr)
+        out[None] = order
+        return out
+    if any(b.methods or b.annotations for b in cls.mro()[1:]):
+        return None
+    fields, defaults = [], {}
+    for st in cls.node.body:
+        if isinstance(st, ast.AnnAssign) and isinstance(st.target, ast.Name) and "ClassVar" not in norm(st.annotation):
+            fields.append(st.target.id)
+            if st.value is not None:
+                defaults[st.target.id] = st.value
+    if not fields or any(isinstance(a, ast.Starred) for a in call.args) or any(k.arg is None for k in call.keywords) or len(call.args) > len(fields):
+        return None
+    out = dict(zip(fields, call.args))
+    for k in call.keywords:
+        if k.arg not in fields or k.arg in out:
+            return None
+        out[k.arg] = k.value
+    for nm in fields:
+        if nm not in out:
+            d = defaults.get(nm)
+            if d is None or isinstance(d, ast.Call):
+                return None                        # required field missing / field(default_factory=..): not an expression
+            out[nm] = d
+    out[None] = fields
+    return out
+
+
+def _split_component(e: ast.AST):
+    """`X.field` -> (X, ("attr", field));  `X[<int>]` -> (X, ("idx", n));  otherwise (e, None)"""
+    e = strip_cast(e)
+    if isinstance(e, ast.Attribute) and not e.attr.startswith("__"):
+        return strip_cast(e.value), ("attr", e.attr)
+    if isinstance(e, ast.Subscript) and type(const_value(e.slice)) is int and const_value(e.slice) >= 0:
+        return strip_cast(e.value), ("idx", const_value(e.slice))
+    return e, None
+
+
+def _component(repo, fi: FuncInfo, v: ast.AST | None, comp):
+    """the expression of one component (field / position) of a result written as a tuple display or as the construction of
+    a result object; None = not known"""
+    if comp is None or v is None:
+        return v
+    v = resolve(fi, v)
+    kind, key = comp
+    if isinstance(v, ast.Tuple):
+        if kind == "idx" and key < len(v.elts) and not any(isinstance(x, ast.Starred) for x in v.elts):
+            return resolve(fi, v.elts[key])
+        return None
+    fields = _ctor_fields(repo, fi, v)
+    if fields is None:
+        return None
+    if kind == "idx":
+        key = fields[None][key] if key < len(fields[None]) else None
+    x = fields.get(key) if key is not None else None
+    return strip_cast(x) if x is not None else None
+
+
+def _fold_components(repo, fi: FuncInfo, e: ast.AST | None):
+    """e with `N.field` / `N[i]` replaced by what was put there, for a local N bound once to a tuple display or to the
+    construction of a result object (`check = _SigCheck(<valid>, payload)` ... `check.valid`, `check.payload.public_key`);
+    returns e itself when there is nothing to replace"""
+    if e is None or repo is None:
+        return e
+    changed = []
+
+    def rep(n, depth=0):
+        if isinstance(n, (ast.Attribute, ast.Subscript)) and isinstance(getattr(n, "ctx", None), ast.Load) and depth < 6:
+            base, comp = _split_component(n)
+            if comp is not None and isinstance(base, ast.Name) and base.id not in fi.params():
+                d = single_def(fi, base.id)
+                x = _component(repo, fi, d[0], comp) if d is not None and d[1] is None and isinstance(strip_cast(d[0]), (ast.Tuple, ast.Call)) else None
+                if x is not None:
+                    changed.append(n)
+                    return rep(clone(x), depth + 1)
+        for f, v in ast.iter_fields(n):
+            if isinstance(v, ast.AST):
+                setattr(n, f, rep(v, depth))
+            elif isinstance(v, list):
+                setattr(n, f, [rep(x, depth) if isinstance(x, ast.AST) else x for x in v])
+        return n
+    if not any(isinstance(n, (ast.Attribute, ast.Subscript)) for n in ast.walk(e)):
+        return e
+    out = rep(clone(e))
+    return out if changed else e
+
+
 class _FlagReach:
     """
     Reachability that knows about flag locals.  A test of a plain local (`if reason is None`, `if not ok`, `if verdict == OK`)
@@ -279,7 +606,7 @@ class _FlagReach:
     without flag locals the answer is the one of CFG.reach.
     """
 
-    def __init__(self, fi: FuncInfo, cfg) -> None:
+    def __init__(self, fi: FuncInfo, cfg, repo=None) -> None:
         self.fi, self.cfg = fi, cfg
         self.defs_at: dict = {}          # cfg node -> [(local, definition index)]
         self.bad: dict = {}              # (cond node, label) -> (local, {definition indexes that contradict this outcome})
@@ -299,30 +626,38 @@ class _FlagReach:
                 elif f.op in ("eq", "is") and f.right is not None:
                     for x, y in ((f.left, f.right), (f.right, f.left)):
                         y = strip_cast(y)
-                        if isinstance(strip_cast(x), ast.Name) and (isinstance(y, ast.Constant) or isinstance(y, (ast.Name, ast.Attribute))
-                                                                   and (chain(y) or "").split(".")[-1].isupper()):
+                        if isinstance(_split_component(x)[0], ast.Name) and not (isinstance(strip_cast(x), ast.Attribute) and strip_cast(x).attr.isupper()) \
+                                and (isinstance(y, ast.Constant) or isinstance(y, (ast.Name, ast.Attribute)) and (chain(y) or "").split(".")[-1].isupper()):
                             want, subj = ("eq", f.pos, y), x
                             break
-                subj = strip_cast(subj) if subj is not None else None
+                subj, comp = strip_cast(subj) if subj is not None else None, None
+                if want is not None and not isinstance(subj, ast.Name) and repo is not None:
+                    subj, comp = _split_component(subj)        # a field / position of a result object: `decision.accept`, `verdict[0]`
                 if want is not None and isinstance(subj, ast.Name) and subj.id not in fi.params():
-                    tested.setdefault(subj.id, []).append((c, pol, want))
+                    tested.setdefault(subj.id, []).append((c, pol, want, comp))
+        mutated = {t.value.id for n in walk_no_nested(fi.node) if isinstance(n, (ast.Assign, ast.AugAssign, ast.AnnAssign, ast.Delete))
+                   for t in (n.targets if isinstance(n, (ast.Assign, ast.Delete)) else [n.target])
+                   for t in (t.elts if isinstance(t, (ast.Tuple, ast.List)) else [t])
+                   if isinstance(t, (ast.Attribute, ast.Subscript)) and isinstance(t.value, ast.Name)}
         for name, tests in tested.items():
             defs = local_defs(fi, name)
             if len(defs) < 2 or len(defs) > 8:
                 continue
+            if name in mutated:
+                tests = [t for t in tests if t[3] is None]      # a result object whose fields are changed in place: only its identity is tracked
             placed = [[n for n in cfg.nodes_for(st) if n.ast is st] for st, _, _ in defs]
             if not all(placed):
                 continue                           # a definition that is not a statement of its own (walrus, ...): the local is not tracked
             for i, ns in enumerate(placed):
                 for n in ns:
                     self.defs_at.setdefault(n, []).append((name, i))
-            for c, pol, want in tests:
+            for c, pol, want, comp in tests:
                 wrong = set()
                 for i, (st, val, idx) in enumerate(defs):
                     if val is None or idx is not None or not isinstance(st, (ast.Assign, ast.AnnAssign)):
                         continue
-                    v = strip_cast(val)
-                    if not isinstance(v, ast.Name) and not _consistent(fi, v, want)[0]:
+                    v = strip_cast(val) if comp is None else _component(repo, fi, val, comp)
+                    if v is not None and not isinstance(v, ast.Name) and not _consistent(fi, v, want)[0]:
                         wrong.add(i)
                 if wrong:
                     self.bad[(c, pol)] = (name, wrong)
@@ -366,7 +701,7 @@ def _flag_reach(ctx: Ctx, fi: FuncInfo) -> _FlagReach:
         setattr(ctx, "_c15_flag_reach", cache)
     k = id(fi.node)
     if k not in cache:
-        cache[k] = _FlagReach(fi, ctx.cfg(fi))
+        cache[k] = _FlagReach(fi, ctx.cfg(fi), ctx.repo)
     return cache[k]
 
 
@@ -413,9 +748,42 @@ class _Frame:
         """e in the anchor function's terms: own single-assignment locals followed, parameters replaced by the caller's
         arguments, remaining own locals marked so that they can never be mistaken for a name of the anchor function"""
         e = strip_cast(e)
+        if follow:
+            e = _fold_components(self.ctx.repo, self.fi, e)
         if self.up is None:
             return resolve(self.fi, e) if follow else e
         return _subst(resolve(self.fi, e), self.mapping, self.rename)
+
+    def pull(self, e: ast.AST | None):
+        """an expression of the calling function written inside this frame (a return of the helper the caller ran): components
+        of the helper's answer (`check.payload`, `verdict[1]` for `check = self._helper(..)`) are replaced by what this
+        return puts there; None when e does not mention the answer or a component is not known"""
+        if e is None or self.up is None or self.call is None or not isinstance(self.site, ast.Return) or self.site.value is None:
+            return None
+        ufi, hit, bad = self.up.fi, [], []
+        rv = resolve(self.fi, self.site.value)
+
+        def is_answer(x) -> bool:
+            x = strip_cast(x)
+            if x is self.call:
+                return True
+            d = single_def(ufi, x.id) if isinstance(x, ast.Name) else None
+            return d is not None and d[1] is None and strip_cast(d[0]) is self.call
+
+        def rep(n):
+            base, comp = _split_component(n) if isinstance(n, (ast.Attribute, ast.Subscript)) else (n, None)
+            if comp is not None and is_answer(base):
+                x = _component(self.ctx.repo, self.fi, rv, comp)
+                (hit if x is not None else bad).append(n)
+                return clone(x) if x is not None else n
+            for f, v in ast.iter_fields(n):
+                if isinstance(v, ast.AST):
+                    setattr(n, f, rep(v))
+                elif isinstance(v, list):
+                    setattr(n, f, [rep(x) if isinstance(x, ast.AST) else x for x in v])
+            return n
+        out = rep(clone(strip_cast(e)))
+        return out if hit and not bad else None
 
     def text(self, e: ast.AST | None, follow: bool = True) -> str:
         if e is None:
@@ -451,11 +819,60 @@ class _Frame:
                     out.append((c.ast, pol))
         return out
 
+    def _table_facts(self, loop: ast.AST):
+        """`for failed, message in ((<test 1>, ".."), (<test 2>, ".."), ..): if failed: <leave>` ran to its end: every test of
+        the table (a display, evaluated where it is written) had the outcome that lets the loop go on"""
+        fi, cfg = self.fi, self.cfg
+        if not isinstance(loop, ast.For) or loop.orelse:
+            return []
+        table = resolve(fi, _unwrap_iter(loop.iter))
+        if not isinstance(table, (ast.Tuple, ast.List)) or not table.elts or any(isinstance(x, ast.Starred) for x in table.elts):
+            return []
+        t = loop.target
+        names = [t] if isinstance(t, ast.Name) else list(t.elts) if isinstance(t, ast.Tuple) else []
+        if not names or not all(isinstance(x, ast.Name) and len(local_defs(fi, x.id)) == 1 for x in names):
+            return []
+        rows = []
+        for row in table.elts:
+            row = strip_cast(row)
+            if isinstance(t, ast.Name):
+                rows.append([row])
+            elif isinstance(row, ast.Tuple) and len(row.elts) == len(names) and not any(isinstance(x, ast.Starred) for x in row.elts):
+                rows.append(list(row.elts))
+            else:
+                return []
+        heads = [n for n in cfg.nodes_for(loop) if n.kind == "loop"]
+        out = []
+        for c in cfg.nodes:
+            if c.kind != "cond" or not isinstance(c.ast, ast.Name) or loop not in list(ancestors(c.ast)):
+                continue
+            k = next((i for i, x in enumerate(names) if x.id == c.ast.id), None)
+            if k is None:
+                continue
+            for pol in (True, False):
+                # an iteration gets back to the loop head only over this outcome of the test
+                back = any(h in cfg.reach([v for v, lab in h.succ if lab is True], cut_edge=lambda u, v, lab, c=c, pol=pol: u is c and lab is pol)
+                           for h in heads)
+                if heads and not back:
+                    for row in rows:
+                        out += _atoms_with_polarity(row[k], pol)
+        return out
+
     def facts(self):
         if self._facts is None:
             ef = self._edge_facts()
             fs = list(self.extra) + (expr_context_facts(self.site) if isinstance(self.site, ast.AST) else [])
             fs += [fact_of(a, p) for a, p in ef if not isinstance(a, (ast.For, ast.AsyncFor, ast.While))]
+            for a, p in ef:
+                # a test of a component of a result object is a test of what was put there
+                folded = _fold_components(self.ctx.repo, self.fi, a) if not isinstance(a, (ast.For, ast.AsyncFor, ast.While)) else a
+                if folded is not a:
+                    for x in _atoms_with_polarity(folded, p):
+                        x.atom = a                 # the place of the fact in the CFG is the place of the written test
+                        fs.append(x)
+            for a, p in ef:
+                if p is False and isinstance(a, ast.For):
+                    fs += self._table_facts(a)
             self._facts = (fs, [(a, p) for a, p in ef if isinstance(a, (ast.For, ast.AsyncFor, ast.While))])
         return self._facts[0]
 
@@ -479,6 +896,7 @@ class _Frame:
             g = _decision_frames(self, f)
             if g:
                 yield g
+        yield from _case_split_frames(self)
         # validating helpers: `self._validate(..)` completed normally on every path to the site
         ns = self.nodes()
         for st in walk_no_nested(self.fi.node):
@@ -579,53 +997,164 @@ def _consistent(h: FuncInfo, v: ast.AST | None, want) -> tuple[bool, list]:
     return True, []
 
 
-def _decision_frames(fr: _Frame, f):
-    """fact f talks about the answer of a helper: the frames of the helper's returns that can give this answer"""
-    want, subj = None, None
+def _test_of(f):
+    """(what the fact wants, the tested expression) for a fact that tests an answer: truthiness, `is None`, == CONSTANT"""
     if f.op == "truthy":
-        want, subj = ("truthy", f.pos, None), f.left
-    elif f.op == "is" and _is_none(f.right):
-        want, subj = ("none", f.pos, None), f.left
-    elif f.op in ("eq", "is") and f.right is not None:
+        return ("truthy", f.pos, None), f.left
+    if f.op == "is" and _is_none(f.right):
+        return ("none", f.pos, None), f.left
+    if f.op in ("eq", "is") and f.right is not None:
         for a, b in ((f.left, f.right), (f.right, f.left)):
             b = strip_cast(b)
             if isinstance(b, ast.Constant) or isinstance(b, (ast.Name, ast.Attribute)) and (chain(b) or "").split(".")[-1].isupper():
-                want, subj = ("eq", f.pos, b), a
-                break
-    if want is None:
+                return ("eq", f.pos, b), a
+    return None, None
+
+
+def _answer_call(fr: _Frame, subj: ast.AST | None, atom: ast.AST | None):
+    """(helper call, component) when the tested expression is the answer of a helper of this code, a local bound to it, or
+    one component of it (`ok, why = self._decide(..)`, `verdict.ok`, `verdict[0]`); None otherwise"""
+    if subj is None:
         return None
-    subj, idx = strip_cast(subj), None
-    if isinstance(subj, ast.Subscript) and type(const_value(subj.slice)) is int and const_value(subj.slice) >= 0:
-        subj, idx = strip_cast(subj.value), const_value(subj.slice)
-    if isinstance(subj, ast.Name):
-        # the one definition that reaches the test (the local may be rebound later, e.g. by a loop further down)
-        d = _reaching_def(fr.fi, subj.id, fr.cfg, f.atom) or single_def(fr.fi, subj.id)
-        if d is None or (d[1] is not None and idx is not None):
+    subj, comp = strip_cast(subj), None
+    for _ in range(4):
+        if isinstance(subj, ast.Call):
+            break
+        if isinstance(subj, ast.Name):
+            # the one definition that reaches the test (the local may be rebound later, e.g. by a loop further down)
+            d = _reaching_def(fr.fi, subj.id, fr.cfg, atom) or single_def(fr.fi, subj.id)
+            if d is None or (d[1] is not None and comp is not None):
+                return None
+            subj, comp = strip_cast(d[0]), ("idx", d[1]) if d[1] is not None else comp
+            continue
+        if comp is not None:
             return None
-        subj, idx = strip_cast(d[0]), d[1] if d[1] is not None else idx
-    if not isinstance(subj, ast.Call):
-        return None
-    ts = _call_targets(fr.ctx, fr.fi, subj)
+        subj, comp = _split_component(subj)
+        if comp is None:
+            return None
+    return (subj, comp) if isinstance(subj, ast.Call) else None
+
+
+def _answer_frames(fr: _Frame, call: ast.Call, comp, feasible):
+    """the frames of the returns of the helper(s) `call` may run for which feasible(helper, answer expression | None) holds
+    (the answer is the return value, or its component comp; None = not known)"""
+    ts = _call_targets(fr.ctx, fr.fi, call)
     if not ts:
         return None
-    up = fr.at(subj)
+    up = fr.at(call)
     out = []
     for h, bound in ts:
         cfg = fr.ctx.cfg(h)
         rets = _returns(h)
         for r in rets:
             v = resolve(h, r.value) if r.value is not None else ast.Constant(value=None)
-            if idx is not None:
-                v = resolve(h, v.elts[idx]) if isinstance(v, ast.Tuple) and idx < len(v.elts) and not any(isinstance(x, ast.Starred) for x in v.elts) \
-                    else None
-            ok, extra = _consistent(h, v, want)
-            if ok:
-                out.append(_Frame(fr.ctx, h, r, up=up, call=subj, bound=bound, extra=extra))
+            if comp is not None:
+                v = _component(fr.ctx.repo, h, v, comp)
+            extra = feasible(h, v)
+            if extra is not None:
+                out.append(_Frame(fr.ctx, h, r, up=up, call=call, bound=bound, extra=extra))
         rn = [n for r in rets for n in cfg.nodes_for(r)]
         if cfg.exit in cfg.reach(cut_nodes=rn, follow_exc=True) and any(lab != "exc" and not isinstance(u.ast, ast.Return) for u, lab in cfg.exit.pred):
             # falling off the end answers None
-            if _consistent(h, ast.Constant(value=None) if idx is None else None, want)[0]:
-                out.append(_Frame(fr.ctx, h, cfg.exit, up=up, call=subj, bound=bound, blocked=rn))
+            if feasible(h, ast.Constant(value=None) if comp is None else None) is not None:
+                out.append(_Frame(fr.ctx, h, cfg.exit, up=up, call=call, bound=bound, blocked=rn))
+    return out
+
+
+def _decision_frames(fr: _Frame, f):
+    """fact f talks about the answer of a helper: the frames of the helper's returns that can give this answer"""
+    want, subj = _test_of(f)
+    if want is None:
+        return None
+    ac = _answer_call(fr, subj, f.atom)
+    if ac is None:
+        return None
+
+    def feasible(h, v):
+        ok, extra = _consistent(h, v, want)
+        return extra if ok else None
+    return _answer_frames(fr, ac[0], ac[1], feasible)
+
+
+def _case_split_frames(fr: _Frame):
+    """
+    A local bound once to the answer of a helper and tested by several conditions (`match self._screen(..)` written as an
+    if / elif chain over the members of an enumeration, `if verdict.ok` ... `if verdict.retry`): no single test dominates the
+    site, but the helper answered with one of its returns.  For each return the site is looked for on the paths of this
+    function that the return's answer can take; the returns for which it is reachable form one group of frames.
+    """
+    cfg, ns = fr.cfg, fr.nodes()
+    if not ns:
+        return
+    tests: dict[str, list] = {}
+    for c in cfg.nodes:
+        if c.kind != "cond" or c.ast is None:
+            continue
+        for pol in (True, False):
+            want, subj = _test_of(fact_of(c.ast, pol))
+            if want is None:
+                continue
+            subj, comp = strip_cast(subj), None
+            if not isinstance(subj, ast.Name):
+                subj, comp = _split_component(subj)
+            if isinstance(subj, ast.Name) and subj.id not in fr.fi.params():
+                tests.setdefault(subj.id, []).append((c, pol, want, comp))
+    for name, ts in tests.items():
+        defs = local_defs(fr.fi, name)
+        if len(defs) != 1 or defs[0][1] is None or defs[0][2] is not None or not isinstance(strip_cast(defs[0][1]), ast.Call):
+            continue
+        st, call = defs[0][0], strip_cast(defs[0][1])
+        if len({id(c) for c, _, _, _ in ts}) < 2 or not _call_targets(fr.ctx, fr.fi, call):
+            continue
+        through = [n for n in cfg.nodes_for(st) if n not in ns]
+        if not through or any(n in cfg.reach(cut_nodes=fr.blocked, cut_out_normal=through) for n in ns):
+            continue                                   # the site can be reached without the helper having answered
+
+        def feasible(h, v, ts=ts):
+            if v is None:
+                return []
+            def cut(u, w, lab):
+                for c, pol, want, comp in ts:
+                    if u is c and lab is pol:
+                        x = _component(fr.ctx.repo, h, v, comp) if comp is not None else v
+                        if x is not None and not _consistent(h, x, want)[0]:
+                            return True
+                return False
+            r = fr.reach(cut_edge=cut)
+            return [] if any(n in r for n in ns) else None
+        group = _answer_frames(fr, call, None, feasible)
+        if group:
+            yield group
+
+
+_PLAIN_CALLS = {"len", "any", "all", "max", "min", "map", "filter", "list", "tuple", "set", "sorted", "sum", "next", "iter", "bool", "int", "str",
+                "bytes", "isinstance", "enumerate", "zip", "range", "reversed", "hexlify", "unhexlify", "getattr", "hasattr", "partial", "reduce"}
+
+
+def _opaque_decisions(fr: _Frame) -> list:
+    """calls in the tests that dominate the frame's site whose answer this analysis could not look into: a method of some
+    other object of this code (`_LIMITS.violated_by(..)`), a callable held in a variable.  A gate may live behind them."""
+    out = []
+    f0: _Frame | None = fr
+    while f0 is not None:
+        for f in f0.facts():
+            for side in (f.left, f.right):
+                if side is None:
+                    continue
+                x = resolve(f0.fi, side)
+                for c in ast.walk(x):
+                    if not isinstance(c, ast.Call):
+                        continue
+                    nm = chain(c.func) or ""
+                    if nm.startswith(("self.", "cls.")) or nm.split(".")[0] in _PLAIN_CALLS or nm.split(".")[-1] in _PLAIN_CALLS \
+                            or nm.split(".")[0] in ("operator", "itertools", "functools", "hashlib", "time", "os") or _call_targets(f0.ctx, f0.fi, c):
+                        continue
+                    base = c.func.value if isinstance(c.func, ast.Attribute) else c.func
+                    root_name = next((n.id for n in ast.walk(base) if isinstance(n, ast.Name)), None)
+                    if root_name is not None and (root_name in f0.fi.module.constants or root_name in f0.fi.module.classes or _is_local(f0.fi, root_name)
+                                                  and root_name not in f0.fi.params()):
+                        out.append(c)
+        f0 = f0.up if f0.ctx_up else None
     return out
 
 
@@ -643,6 +1172,187 @@ def _sites_via_helpers(ctx: Ctx, root: _Frame, finder, depth: int = 0):
         sub = _Frame(ctx, h, h.node, up=root.at(c), call=c, bound=bound, ctx_up=True)
         out += _sites_via_helpers(ctx, sub, finder, depth + 1)
     return out
+
+
+# ------------------------------------------------------------------------------------------------ pipelines
+# map / filter / filterfalse / partial / lambda / operator.* spell what a generator expression spells.  The rules below state
+# their conditions over generator expressions (`any(<test> for x in X)`, `for t in (<elt> for x in X)`), so an iterable
+# expression is first rewritten into the generator expression that yields the same elements.
+_OP_COMPARE = {"eq": ast.Eq, "ne": ast.NotEq, "lt": ast.Lt, "le": ast.LtE, "gt": ast.Gt, "ge": ast.GtE, "is_": ast.Is, "is_not": ast.IsNot}
+_DUNDER_COMPARE = {"__eq__": ast.Eq, "__ne__": ast.NotEq, "__lt__": ast.Lt, "__le__": ast.LtE, "__gt__": ast.Gt, "__ge__": ast.GtE}
+_fresh = [0]
+
+
+def _is_local(fi: FuncInfo, name: str) -> bool:
+    return name in fi.params() or bool(local_defs(fi, name))
+
+
+def _lib_name(fi: FuncInfo, f: ast.AST, module: str, names) -> str | None:
+    """f names <module>.<one of names>: `import module [as m]` + m.name, or `from module import name [as alias]` + alias"""
+    f = strip_cast(f)
+    if isinstance(f, ast.Attribute) and isinstance(f.value, ast.Name) and f.attr in names and not _is_local(fi, f.value.id):
+        imp = fi.module.imports.get(f.value.id)
+        return f.attr if imp is not None and imp[1] is None and imp[0] == module else None
+    if isinstance(f, ast.Name) and not _is_local(fi, f.id):
+        imp = fi.module.imports.get(f.id)
+        return imp[1] if imp is not None and imp[0] == module and imp[1] in names else None
+    return None
+
+
+def _builtin(fi: FuncInfo, f: ast.AST, names) -> str | None:
+    f = strip_cast(f)
+    if isinstance(f, ast.Name) and f.id in names and not _is_local(fi, f.id) and f.id not in fi.module.imports \
+            and f.id not in fi.module.functions and f.id not in fi.module.classes:
+        return f.id
+    return None
+
+
+def _apply_callable(ctx: Ctx | None, fi: FuncInfo, f: ast.AST, args: list, keywords=(), depth: int = 0):
+    """the expression `f(*args, **keywords)` computes, with lambdas, functools.partial, operator.* and bound comparison
+    methods written out; any other callable stays a call.  None = not decided."""
+    if depth > 4 or f is None:
+        return None
+    f = resolve(fi, f)
+    keywords = list(keywords)
+    if isinstance(f, ast.Lambda):
+        a = f.args
+        names = [p.arg for p in a.args]
+        if a.vararg or a.kwarg or a.kwonlyargs or a.posonlyargs or len(args) > len(names):
+            return None
+        env = dict(zip(names, args))
+        for k in keywords:
+            if k.arg is None or k.arg not in names or k.arg in env:
+                return None
+            env[k.arg] = k.value
+        for nm, d in zip(names[len(names) - len(a.defaults):], a.defaults):
+            env.setdefault(nm, d)
+        if set(env) != set(names):
+            return None
+        return _subst(f.body, env, {})
+    if isinstance(f, ast.Call):
+        if _lib_name(fi, f.func, "functools", ("partial",)) and f.args and not any(isinstance(x, ast.Starred) for x in f.args) \
+                and all(k.arg is not None for k in f.keywords):
+            return _apply_callable(ctx, fi, f.args[0], [*f.args[1:], *args], [*f.keywords, *keywords], depth + 1)
+        op = _lib_name(fi, f.func, "operator", ("methodcaller", "itemgetter", "attrgetter"))
+        if op is not None and len(args) == 1 and not keywords:
+            if op == "methodcaller" and f.args and isinstance(const_value(f.args[0]), str):
+                return ast.Call(func=ast.Attribute(value=clone(args[0]), attr=const_value(f.args[0]), ctx=ast.Load()),
+                                args=[clone(x) for x in f.args[1:]], keywords=[clone(k) for k in f.keywords])
+            if op == "itemgetter" and len(f.args) == 1 and not f.keywords:
+                return ast.Subscript(value=clone(args[0]), slice=clone(f.args[0]), ctx=ast.Load())
+            if op == "attrgetter" and len(f.args) == 1 and not f.keywords and isinstance(const_value(f.args[0]), str):
+                out = clone(args[0])
+                for part in const_value(f.args[0]).split("."):
+                    out = ast.Attribute(value=out, attr=part, ctx=ast.Load())
+                return out
+        return _instance_call_as_expr(ctx, fi, f, args, keywords)
+    if not isinstance(f, (ast.Name, ast.Attribute)):
+        return None
+    op = _lib_name(fi, f, "operator", (*_OP_COMPARE, "contains", "not_", "truth", "getitem"))
+    if op is not None and not keywords:
+        if op in _OP_COMPARE and len(args) == 2:
+            return ast.Compare(left=clone(args[0]), ops=[_OP_COMPARE[op]()], comparators=[clone(args[1])])
+        if op == "contains" and len(args) == 2:
+            return ast.Compare(left=clone(args[1]), ops=[ast.In()], comparators=[clone(args[0])])
+        if op == "getitem" and len(args) == 2:
+            return ast.Subscript(value=clone(args[0]), slice=clone(args[1]), ctx=ast.Load())
+        if op == "not_" and len(args) == 1:
+            return ast.UnaryOp(op=ast.Not(), operand=clone(args[0]))
+        if op == "truth" and len(args) == 1:
+            return clone(args[0])
+        return None
+    if isinstance(f, ast.Attribute) and len(args) == 1 and not keywords:
+        if f.attr in _DUNDER_COMPARE:
+            return ast.Compare(left=clone(f.value), ops=[_DUNDER_COMPARE[f.attr]()], comparators=[clone(args[0])])
+        if f.attr == "__contains__":
+            return ast.Compare(left=clone(args[0]), ops=[ast.In()], comparators=[clone(f.value)])
+        if f.attr == "__getitem__":
+            return ast.Subscript(value=clone(f.value), slice=clone(args[0]), ctx=ast.Load())
+    return ast.Call(func=clone(f), args=[clone(x) for x in args], keywords=[clone(k) for k in keywords])
+
+
+def _plain_gen(e: ast.AST) -> ast.GeneratorExp:
+    """(x for x in E) with a variable that cannot clash with a name of the analysed code"""
+    _fresh[0] += 1
+    nm = f"it#{_fresh[0]}"
+    return ast.GeneratorExp(elt=ast.Name(id=nm, ctx=ast.Load()),
+                            generators=[ast.comprehension(target=ast.Name(id=nm, ctx=ast.Store()), iter=clone(e), ifs=[], is_async=0)])
+
+
+def _as_genexp(ctx: Ctx | None, fi: FuncInfo, e: ast.AST | None, depth: int = 0):
+    """the generator expression that yields the elements of the iterable expression e (the order of the elements is kept
+    except through sorted / reversed, which the rules that use this do not depend on):
+    comprehensions, map(f, X), filter(f, X), filterfalse(f, X), calls of generator helpers - also nested in each other,
+    also through a local.  None when e is not such an expression."""
+    if e is None or depth > 4:
+        return None
+    e = resolve(fi, _unwrap_iter(e))
+    e = _unwrap_iter(e)
+    if isinstance(e, (ast.GeneratorExp, ast.ListComp, ast.SetComp)):
+        return _flatten_gen(ctx, fi, e, depth + 1)
+    if not isinstance(e, ast.Call) or e.keywords or any(isinstance(a, ast.Starred) for a in e.args):
+        return _generator_call_as_genexp(ctx, fi, e) if ctx is not None and isinstance(e, ast.Call) else None
+    kind = _builtin(fi, e.func, ("map", "filter")) or _lib_name(fi, e.func, "itertools", ("filterfalse",))
+    if kind is None or len(e.args) != 2:
+        return _generator_call_as_genexp(ctx, fi, e) if ctx is not None else None
+    inner = _as_genexp(ctx, fi, e.args[1], depth + 1) or _plain_gen(e.args[1])
+    f = strip_cast(e.args[0])
+    if kind == "map":
+        elt = _apply_callable(ctx, fi, f, [inner.elt])
+        return None if elt is None else ast.GeneratorExp(elt=elt, generators=inner.generators)
+    cond = clone(inner.elt) if _is_none(f) or chain(f) == "bool" else _apply_callable(ctx, fi, f, [inner.elt])
+    if cond is None:
+        return None
+    if kind == "filterfalse":
+        cond = ast.UnaryOp(op=ast.Not(), operand=cond)
+    last = inner.generators[-1]
+    gens = [*inner.generators[:-1], ast.comprehension(target=last.target, iter=last.iter, ifs=[*last.ifs, cond], is_async=last.is_async)]
+    return ast.GeneratorExp(elt=inner.elt, generators=gens)
+
+
+def _as_quantifier(ctx: Ctx | None, fi: FuncInfo, e: ast.AST | None):
+    """("any" | "all", generator expression) for an expression that asks whether some / every element passes a test:
+    any(G), all(G) over any spelling of G (see _as_genexp), next((True for x in X if C), False)"""
+    e = resolve(fi, e) if e is not None else None
+    if not isinstance(e, ast.Call) or e.keywords:
+        return None
+    if _lib_name(fi, e.func, "functools", ("reduce",)) and len(e.args) == 3 and isinstance(strip_cast(e.args[2]), ast.Constant):
+        # reduce(operator.or_, G, False) is any(G); reduce(operator.and_, G, True) is all(G)  (for tests that answer booleans)
+        acc = _apply_callable(ctx, fi, e.args[0], [ast.Name(id="a#", ctx=ast.Load()), ast.Name(id="b#", ctx=ast.Load())])
+        op = _lib_name(fi, e.args[0], "operator", ("or_", "and_"))
+        if op is None and isinstance(acc, ast.BoolOp) and [norm(x) for x in acc.values] == ["a#", "b#"]:
+            op = "or_" if isinstance(acc.op, ast.Or) else "and_"
+        init = strip_cast(e.args[2]).value
+        if op is None and isinstance(acc, ast.BoolOp) and len(acc.values) == 2 and norm(acc.values[0]) == "a#" and init is isinstance(acc.op, ast.And) \
+                and not any(isinstance(n, ast.Name) and n.id == "a#" for n in ast.walk(acc.values[1])):
+            # reduce(lambda hit, x: hit or <test of x>, X, False) is any(<test of x> for x in X)
+            inner = _as_genexp(ctx, fi, e.args[1]) or _plain_gen(e.args[1])
+            return ("any" if isinstance(acc.op, ast.Or) else "all"), ast.GeneratorExp(elt=_subst(acc.values[1], {"b#": inner.elt}, {}), generators=inner.generators)
+        gen = _as_genexp(ctx, fi, e.args[1]) if op is not None and init is (op == "and_") else None
+        if gen is not None and isinstance(gen.elt, (ast.Compare, ast.BoolOp, ast.UnaryOp)):
+            return ("any" if op == "or_" else "all"), gen
+        return None
+    q = _builtin(fi, e.func, ("any", "all", "next"))
+    if q in ("any", "all") and len(e.args) == 1:
+        gen = _as_genexp(ctx, fi, e.args[0])
+        if q == "any" and gen is not None and len(gen.generators) == 1 and not gen.generators[0].ifs and _known_truth(gen.elt) is True:
+            # any(True for _ in dropwhile(<test>, X)): something is left once the leading elements that pass are dropped
+            d = _unwrap_iter(gen.generators[0].iter)
+            if isinstance(d, ast.Call) and _lib_name(fi, d.func, "itertools", ("dropwhile",)) and len(d.args) == 2 and not d.keywords:
+                inner = _as_genexp(ctx, fi, d.args[1]) or _plain_gen(d.args[1])
+                cond = _apply_callable(ctx, fi, d.args[0], [inner.elt])
+                if cond is not None:
+                    return "any", ast.GeneratorExp(elt=ast.UnaryOp(op=ast.Not(), operand=cond), generators=inner.generators)
+        return (q, gen) if gen is not None else None
+    if q == "next" and len(e.args) == 2:
+        gen = _as_genexp(ctx, fi, e.args[0])
+        if gen is None or len(gen.generators) != 1 or not gen.generators[0].ifs or _known_truth(gen.elt) is not True \
+                or not isinstance(strip_cast(e.args[1]), ast.Constant) or strip_cast(e.args[1]).value:
+            return None
+        g = gen.generators[0]
+        cond = g.ifs[0] if len(g.ifs) == 1 else ast.BoolOp(op=ast.And(), values=list(g.ifs))
+        return "any", ast.GeneratorExp(elt=cond, generators=[ast.comprehension(target=g.target, iter=g.iter, ifs=[], is_async=g.is_async)])
+    return None
 
 
 # ------------------------------------------------------------------------------------------------ store gate
@@ -671,23 +1381,28 @@ def _size_gate(fr: _Frame, is_values) -> bool:
     """every value of the request is known to be <= MAX_ENTRY_SIZE when the frame's site is reached"""
     fi, cfg = fr.fi, fr.cfg
     for f in fr.facts():
-        if f.op != "truthy" or not isinstance(f.left, ast.Call) or chain(f.left.func) not in ("any", "all") or len(f.left.args) != 1:
+        q = _as_quantifier(fr.ctx, fi, f.left) if f.op == "truthy" else None      # also any(map(<too long>, values)), next((True for ..), False)
+        if q is None:
             continue
-        gen = f.left.args[0]
+        q, gen = q
         if not isinstance(gen, (ast.GeneratorExp, ast.ListComp)) or len(gen.generators) != 1:
             continue
         g = gen.generators[0]
         if g.ifs or g.is_async or not isinstance(g.target, ast.Name) or not is_values(_unwrap_iter(g.iter)):
             continue
-        if chain(f.left.func) == "any" and not f.pos and _too_long(fr, gen.elt, True, g.target.id) is True:
+        if q == "any" and not f.pos and _too_long(fr, gen.elt, True, g.target.id) is True:
             return True                    # not any(len(v) > MAX for v in values)
-        if chain(f.left.func) == "all" and f.pos and _too_long(fr, gen.elt, True, g.target.id) is False:
+        if q == "all" and f.pos and _too_long(fr, gen.elt, True, g.target.id) is False:
             return True                    # all(len(v) <= MAX for v in values)
         # (handled above: any / all over the values)
     for f in fr.facts():
         # not [v for v in values if len(v) > MAX]   (the list of offending values is empty)
         r = resolve(fi, f.left) if f.op == "truthy" and not f.pos else None
-        if isinstance(r, (ast.ListComp, ast.SetComp)) and len(r.generators) == 1:
+        if isinstance(r, (ast.ListComp, ast.SetComp)) or isinstance(r, ast.Call) and chain(r.func) in ("list", "tuple", "set") and len(r.args) == 1:
+            r = _as_genexp(fr.ctx, fi, r)                      # also list(filter(<too long>, values))
+        else:
+            r = None
+        if r is not None and len(r.generators) == 1:
             g = r.generators[0]
             if len(g.ifs) == 1 and not g.is_async and isinstance(g.target, ast.Name) and is_values(_unwrap_iter(g.iter)) \
                     and _too_long(fr, g.ifs[0], True, g.target.id) is True:
@@ -696,8 +1411,11 @@ def _size_gate(fr: _Frame, is_values) -> bool:
         if f.op == "lt":
             for big, small, pos in ((f.right, f.left, False), (f.left, f.right, True)):
                 m = resolve(fi, big)
+                if isinstance(m, ast.Call) and _lib_name(fi, m.func, "functools", ("reduce",)) and 2 <= len(m.args) <= 3 and not m.keywords \
+                        and chain(strip_cast(m.args[0])) == "max":
+                    m = ast.Call(func=m.args[0], args=[m.args[1]], keywords=[])      # reduce(max, X[, start]) is max(X) (or start, if larger)
                 if f.pos is pos and chain(small) == "MAX_ENTRY_SIZE" and isinstance(m, ast.Call) and chain(m.func) == "max" and len(m.args) == 1:
-                    gen = m.args[0]
+                    gen = _as_genexp(fr.ctx, fi, m.args[0]) or m.args[0]
                     if isinstance(gen, (ast.GeneratorExp, ast.ListComp)) and len(gen.generators) == 1 and not gen.generators[0].ifs \
                             and isinstance(gen.generators[0].target, ast.Name) and is_values(_unwrap_iter(gen.generators[0].iter)) \
                             and _len_of(fr, gen.elt, lambda x, g=gen: isinstance(x, ast.Name) and x.id == g.generators[0].target.id):
@@ -777,26 +1495,62 @@ def rule_store_gate(ctx: Ctx) -> None:
     cfg = ctx.cfg(fi)
     root = _Frame(ctx, fi, fi.node)
     peer, payload = fi.params()[1], fi.params()[2]
-    adds = ctx.anchor(_sites_via_helpers(ctx, root, lambda f: calls(f, "self.add_value")), "add_value in on_store_request")
+    def applied_add(f: FuncInfo, c: ast.Call):
+        """(the add_value call that c stands for, the generator expression it runs over | None): the call itself, a local
+        bound to partial(self.add_value, ..) applied to the value, or map(<such a callable>, <values>)"""
+        if chain(c.func) == "self.add_value":
+            return c, None
+        if isinstance(c.func, ast.Name) and isinstance(resolve(f, c.func), (ast.Call, ast.Lambda)):
+            x = _apply_callable(ctx, f, c.func, list(c.args), list(c.keywords))
+            return (x, None) if isinstance(x, ast.Call) and chain(x.func) == "self.add_value" else (None, None)
+        if _builtin(f, c.func, ("map",)):
+            gen = _as_genexp(ctx, f, c)
+            if gen is not None and isinstance(gen.elt, ast.Call) and chain(gen.elt.func) == "self.add_value":
+                return gen.elt, gen
+        return None, None
+
+    adds = ctx.anchor(_sites_via_helpers(ctx, root, lambda f: [c for c in calls(f) if applied_add(f, c)[0] is not None]), "add_value in on_store_request")
     # the requesting node: the local bound to get_requesting_node(<authenticated peer>)
     def requester_expr(fr: _Frame, e) -> bool:
         """e is (a local bound once to) self.get_requesting_node(<authenticated peer>)"""
         r = resolve(fr.fi, e) if e is not None else None
-        return isinstance(r, ast.Call) and chain(r.func) == "self.get_requesting_node" and fr.text(arg(r, 0)) == peer
+        return isinstance(r, ast.Call) and chain(r.func) == "self.get_requesting_node" and fr.text(arg(r, 0, "peer")) == peer
 
     req = []
     for st, targets, value in _assignments(fi):
         v = strip_cast(value)
-        if not isinstance(v, ast.Call):
+        if isinstance(v, ast.Call) and chain(v.func) == "self.get_requesting_node":
+            if _rnorm(fi, arg(v, 0, "peer")) == peer:
+                req += [(st, t.id) for t in targets if isinstance(t, ast.Name)]
             continue
-        if chain(v.func) == "self.get_requesting_node":
-            ok = _rnorm(fi, arg(v, 0)) == peer
-        else:
-            # a helper that hands the requesting node back (or None): `node = self._authorised_requester(peer, payload)`
-            leaves = [(g, x) for g, x in _result_leaves(ctx, root.at(st), v, 0, requester_expr) if not _is_none(x)] if _call_targets(ctx, fi, v) else []
-            ok = bool(leaves) and all(g.up is not None and requester_expr(g, x) for g, x in leaves)
-        if ok:
-            req += [(st, t.id) for t in targets if isinstance(t, ast.Name)]
+        # a helper that hands the requesting node back (or None): `node = self._authorised_requester(peer, payload)`, also as one
+        # component of its answer: `node, problem = self._admit(peer, payload)`, `node = decision.node`
+        cands = []
+        for t in targets:
+            if isinstance(t, ast.Name):
+                base, comp = (v, None) if isinstance(v, ast.Call) else _split_component(v)
+                if comp is not None and isinstance(base, ast.Name):
+                    d = single_def(fi, base.id)
+                    base = strip_cast(d[0]) if d is not None and d[1] is None else None
+                cands.append((t.id, base, comp))
+            elif isinstance(t, ast.Tuple) and isinstance(v, ast.Call) and not any(isinstance(x, ast.Starred) for x in t.elts):
+                cands += [(x.id, v, ("idx", i)) for i, x in enumerate(t.elts) if isinstance(x, ast.Name)]
+        for name, call, comp in cands:
+            if not isinstance(call, ast.Call) or not _call_targets(ctx, fi, call):
+                continue
+            if comp is None:
+                leaves = [(g, x) for g, x in _result_leaves(ctx, root.at(st), call, 0, requester_expr) if not _is_none(x)]
+            else:
+                leaves = []
+                for g in _answer_frames(root.at(st), call, None, lambda h, x: []) or []:
+                    x = _component(repo, g.fi, g.site.value, comp) if isinstance(g.site, ast.Return) and g.site.value is not None else None
+                    if x is None:
+                        leaves = [(g, None)]
+                        break
+                    if not _is_none(x):
+                        leaves.append((g, x))
+            if leaves and all(x is not None and g.up is not None and requester_expr(g, x) for g, x in leaves):
+                req.append((st, name))
     ctx.check(len(req) == 1, "store-gate", fi, fi.node, "requesting node = get_requesting_node(<authenticated peer>)",
               "the node whose token is checked is not derived from the authenticated sender")
     rn = req[0][1] if len(req) == 1 else None
@@ -837,7 +1591,7 @@ def rule_store_gate(ctx: Ctx) -> None:
     def p_token(fr: _Frame) -> bool:
         for f in fr.facts():
             if f.op == "truthy" and f.pos and isinstance(f.left, ast.Call) and chain(f.left.func) == "self.check_token" \
-                    and is_rn(fr, arg(f.left, 0)) and fr.text(arg(f.left, 1)) == f"{payload}.token":
+                    and is_rn(fr, arg(f.left, 0, "node")) and fr.text(arg(f.left, 1, "token")) == f"{payload}.token":
                 # the token check must see the requesting node, i.e. happen before that local is rebound (closest-nodes loop)
                 if sees_requester(fr.root_site() or f.left):
                     return True
@@ -846,10 +1600,17 @@ def rule_store_gate(ctx: Ctx) -> None:
     for fr in adds:
         a = fr.site
         has_node, size, count, tok_ok = _holds(fr, p_node), _holds(fr, p_size), _holds(fr, p_count), _holds(fr, p_token)
-        val = strip_cast(arg(a, 1)) if arg(a, 1) is not None else None
+        call, gen = applied_add(fr.fi, a)
+        val = strip_cast(arg(call, 1, "value")) if arg(call, 1, "value") is not None else None
         iv = is_values(fr)
-        val_ok = _element_of_values(fr.fi, a, val, iv)
-        key_ok = fr.text(arg(a, 0)) == f"{payload}.target"
+        if gen is None:
+            val_ok = _element_of_values(fr.fi, a, val, iv)
+        else:
+            val_ok = len(gen.generators) == 1 and isinstance(gen.generators[0].target, ast.Name) and isinstance(val, ast.Name) \
+                and val.id == gen.generators[0].target.id and iv(_unwrap_iter(gen.generators[0].iter))
+        key_ok = fr.text(arg(call, 0, "key")) == f"{payload}.target"
+        if not (has_node and size and count and tok_ok) and _opaque_decisions(fr):
+            raise AnalysisError(f"undecided: `{norm(_opaque_decisions(fr)[0])}` decides whether on_store_request stores, and what it tests is not decided")
         ctx.check(has_node and size and count and tok_ok and val_ok and key_ok, "store-gate", fr.fi, a,
                   "add_value dominated by: requesting node, all values <= MAX_ENTRY_SIZE, count <= MAX_VALUES_IN_STORE, check_token(node, payload.token)",
                   f"a value can be stored without the token/size/count gate (node={has_node} size={size} count={count} token={tok_ok} values={val_ok} key={key_ok})",
@@ -857,6 +1618,10 @@ def rule_store_gate(ctx: Ctx) -> None:
     # nobody else stores on behalf of a requester: add_value is called from the gated sites above and from store_on_nodes
     # (the node's own lookups / publications), or from private helpers that only they use
     checked = {id(fr.site) for fr in adds}
+    for fr in adds:
+        # an add_value call written inside the lambda that the site applies (directly or through map) is that site
+        roots = [fr.site] + [resolve(fr.fi, x) for x in ([fr.site.func] if isinstance(fr.site.func, ast.Name) else []) + list(fr.site.args[:1])]
+        checked |= {id(c) for r in roots if isinstance(r, (ast.Lambda, ast.Call)) for c in ast.walk(r) if isinstance(c, ast.Call) and call_name(c) == "add_value"}
     for _m, g, c in repo.callers_of_name("add_value"):
         own = _used_only_by(repo, g, {"DHTCommunity.store_on_nodes"})
         gated = not own and _used_only_by(repo, g, {fi.qualname})
@@ -872,28 +1637,63 @@ def rule_store_gate(ctx: Ctx) -> None:
 
 
 # ------------------------------------------------------------------------------------------------ tokens
-def _call_as_expr(ctx: Ctx | None, fi: FuncInfo, call: ast.AST, depth: int = 0):
-    """the value of a call of a straight-line helper (`x = ..; y = ..; return E`, no branches, every local assigned once) as
-    one expression in the caller's terms: locals replaced by their definitions, parameters by the arguments; None otherwise.
-    (What the load-time inliner does for statements, for a call that sits inside an expression such as a generator.)"""
-    if ctx is None or depth > 2 or not isinstance(call, ast.Call):
+def _sha1_call(e: ast.AST | None):
+    """hashlib.sha1(X) / sha1(X) / hashlib.new("sha1", X)  ->  the call written as hashlib.sha1(X) (X may be missing); else None"""
+    if not isinstance(e, ast.Call) or e.keywords:
         return None
-    ts = _call_targets(ctx, fi, call)
-    if not ts or len(ts) != 1:
-        return None
-    h, bound = ts[0]
+    c = chain(e.func)
+    if c in ("hashlib.sha1", "sha1") and len(e.args) <= 1:
+        return e
+    if c in ("hashlib.new", "new") and 1 <= len(e.args) <= 2 and str(const_value(e.args[0])).lower() == "sha1":
+        return ast.Call(func=ast.Attribute(value=ast.Name(id="hashlib", ctx=ast.Load()), attr="sha1", ctx=ast.Load()), args=list(e.args[1:]), keywords=[])
+    return None
+
+
+def _is_hash_ctor(e: ast.AST | None) -> bool:
+    return _sha1_call(e) is not None
+
+
+def _concat_parts(fi: FuncInfo | None, e: ast.AST) -> list:
+    """the pieces a bytes value is assembled from, in order: a + b + c, b"".join((a, b, c)), b"%s%s" % (a, b), bytes(x) of them"""
+    e = strip_cast(e)
+    if fi is not None:
+        e = resolve(fi, e)
+    if isinstance(e, ast.BinOp) and isinstance(e.op, ast.Add):
+        return _concat_parts(fi, e.left) + _concat_parts(fi, e.right)
+    if isinstance(e, ast.Call) and isinstance(e.func, ast.Attribute) and e.func.attr == "join" and const_value(e.func.value) == b"" and len(e.args) == 1 \
+            and not e.keywords and isinstance(strip_cast(e.args[0]), (ast.Tuple, ast.List)) and not any(isinstance(x, ast.Starred) for x in e.args[0].elts):
+        return [p for x in e.args[0].elts for p in _concat_parts(fi, x)]
+    if isinstance(e, ast.BinOp) and isinstance(e.op, ast.Mod) and isinstance(const_value(e.left), bytes):
+        fmt = const_value(e.left)
+        items = list(e.right.elts) if isinstance(e.right, ast.Tuple) else [e.right]
+        if fmt.replace(b"%b", b"%s") == b"%s" * len(items) and items and not any(isinstance(x, ast.Starred) for x in items):
+            return [p for x in items for p in _concat_parts(fi, x)]
+    if isinstance(e, ast.Constant) and e.value == b"":
+        return []
+    return [e]
+
+
+def _straight_line_value(h: FuncInfo, env: dict):
+    """the value of a straight-line function (`x = ..; y = ..; return E`, no branches, every local assigned once) as one
+    expression: locals replaced by their definitions, parameters by env; None when the function is not of this shape"""
     body = [st for st in h.node.body if not (isinstance(st, ast.Expr) and isinstance(st.value, ast.Constant) and isinstance(st.value.value, str))]
     if not body or not isinstance(body[-1], ast.Return) or body[-1].value is None:
         return None
     ps = h.params()
-    pos = ps[1:] if bound and ps else ps
-    env: dict[str, ast.AST] = dict(zip(pos, call.args))
-    env.update({k.arg: k.value for k in call.keywords if k.arg in ps})
-    if bound and ps:
-        env[ps[0]] = ast.Name(id="self", ctx=ast.Load())
+    env = dict(env)
     if any(local_defs(h, p_) for p_ in ps):
         return None
     for st in body[:-1]:
+        if isinstance(st, ast.Expr) and isinstance(st.value, ast.Call) and isinstance(st.value.func, ast.Attribute) and st.value.func.attr == "update" \
+                and isinstance(st.value.func.value, ast.Name) and len(st.value.args) == 1 and not st.value.keywords:
+            # h = hashlib.sha1(A); h.update(B)  is  h = hashlib.sha1(A + B): a hash object digests the concatenation of what it was fed
+            nm = st.value.func.value.id
+            cur = _sha1_call(env.get(nm))
+            if nm in ps or cur is None:
+                return None
+            fed = _subst(st.value.args[0], env, {})
+            env[nm] = ast.Call(func=cur.func, args=[ast.BinOp(left=cur.args[0], op=ast.Add(), right=fed) if cur.args else fed], keywords=[])
+            continue
         if not (isinstance(st, (ast.Assign, ast.AnnAssign)) and st.value is not None):
             return None
         tg = st.targets if isinstance(st, ast.Assign) else [st.target]
@@ -906,38 +1706,200 @@ def _call_as_expr(ctx: Ctx | None, fi: FuncInfo, call: ast.AST, depth: int = 0):
     return _subst(body[-1].value, env, {})
 
 
+def _call_as_expr(ctx: Ctx | None, fi: FuncInfo, call: ast.AST, depth: int = 0):
+    """the value of a call of a straight-line helper as one expression in the caller's terms: locals replaced by their
+    definitions, parameters by the arguments; None otherwise.
+    (What the load-time inliner does for statements, for a call that sits inside an expression such as a generator.)"""
+    if ctx is None or depth > 2 or not isinstance(call, ast.Call):
+        return None
+    f = resolve(fi, call.func)
+    if isinstance(f, (ast.Lambda, ast.Call)):
+        # (lambda ..)(x), partial(f, a)(x), _Helper(a)(x): written out; a plain call that is left is followed below
+        x = _apply_callable(ctx, fi, f, list(call.args), list(call.keywords))
+        if x is None or not isinstance(x, ast.Call) or isinstance(resolve(fi, x.func), (ast.Lambda, ast.Call)):
+            return x
+        return _call_as_expr(ctx, fi, x, depth + 1) or x
+    ts = _call_targets(ctx, fi, call)
+    if not ts or len(ts) != 1:
+        return None
+    h, bound = ts[0]
+    env = _bind_call(h.node.args, call, bound and bool(h.params()))
+    if env is None:
+        return None
+    if bound and h.params():
+        env[h.params()[0]] = ast.Name(id="self", ctx=ast.Load())
+    return _straight_line_value(h, env)
+
+
+def _instance_call_as_expr(ctx: Ctx | None, fi: FuncInfo, inst: ast.AST, args: list, keywords=()):
+    """`Cls(a, b)(x)` for a small callable class of this code (what a closure over a, b would compute): the value of its
+    straight-line __call__ with the stored fields replaced by the constructor's arguments; None otherwise"""
+    if ctx is None:
+        return None
+    fields = _ctor_fields(ctx.repo, fi, inst)
+    if fields is None:
+        return None
+    cls = ctx.repo.resolve_name(fi.module, inst.func.id)
+    callm = cls.lookup("__call__")
+    if callm is None or not _followable(callm) or _is_static(callm) or not callm.params():
+        return None
+    env = _bind_call(callm.node.args, ast.Call(func=inst, args=list(args), keywords=list(keywords)), True)
+    if env is None:
+        return None
+    me = callm.params()[0]
+    # the instance's own `self.<field>` is replaced first; the caller's arguments (which may mention the caller's self) go in afterwards
+    actual = {f"arg#{i}": v for i, v in enumerate(env.values())}
+    env = {k: ast.Name(id=f"arg#{i}", ctx=ast.Load()) for i, k in enumerate(env)}
+    env[me] = ast.Name(id=me, ctx=ast.Load())
+    e = _straight_line_value(callm, env)
+    if e is None:
+        return None
+
+    class _Fields(ast.NodeTransformer):
+        ok = True
+
+        def visit_Attribute(self, n):
+            if isinstance(n.value, ast.Name) and n.value.id == me:
+                if n.attr in fields and n.attr is not None:
+                    return clone(fields[n.attr])
+                self.ok = False
+                return n
+            return self.generic_visit(n)
+
+        def visit_Name(self, n):
+            if n.id == me:
+                self.ok = False
+            return n
+    t = _Fields()
+    e = t.visit(e)
+    return _subst(e, actual, {}) if t.ok else None
+
+
+def _fed_hash(fi: FuncInfo, e: ast.AST):
+    """`h.digest()` for a local hash object fed piecewise in a straight line at the top of the function body
+    (`h = hashlib.sha1(A)`, `h.update(B)`, .. `h.digest()`) -> hashlib.sha1(A + B + ..).digest(); None otherwise"""
+    if not (isinstance(e, ast.Call) and call_name(e) == "digest" and not e.args and isinstance(e.func, ast.Attribute) and isinstance(e.func.value, ast.Name)):
+        return None
+    nm = e.func.value.id
+    d = single_def(fi, nm)
+    if d is None or d[1] is not None or not _is_hash_ctor(strip_cast(d[0])):
+        return None
+    body = list(fi.node.body)
+    top = {id(st): i for i, st in enumerate(body)}
+    dst, use = local_defs(fi, nm)[0][0], enclosing_stmt(e)
+    if id(dst) not in top or id(use) not in top:
+        return None
+    loads = [n for n in ast.walk(fi.node) if isinstance(n, ast.Name) and n.id == nm and isinstance(n.ctx, ast.Load)]
+    fed = []
+    for st in body[top[id(dst)] + 1:top[id(use)]]:
+        c = st.value if isinstance(st, ast.Expr) else None
+        if isinstance(c, ast.Call) and isinstance(c.func, ast.Attribute) and c.func.attr == "update" and isinstance(c.func.value, ast.Name) \
+                and c.func.value.id == nm and len(c.args) == 1 and not c.keywords:
+            fed.append(c.args[0])
+        elif any(isinstance(n, ast.Name) and n.id == nm for n in ast.walk(st)) or any(isinstance(n, (ast.Return, ast.Raise, ast.Break, ast.Continue)) for n in ast.walk(st)):
+            return None
+    if len(loads) != len(fed) + 1:
+        return None                                # the hash object is used elsewhere as well
+    ctor = _sha1_call(strip_cast(d[0]))
+    parts = list(ctor.args) + fed
+    if not parts:
+        return None
+    pre = parts[0]
+    for x in parts[1:]:
+        pre = ast.BinOp(left=pre, op=ast.Add(), right=x)
+    return ast.Call(func=ast.Attribute(value=ast.Call(func=ctor.func, args=[pre], keywords=[]), attr="digest", ctx=ast.Load()), args=[], keywords=[])
+
+
 def _token_preimage(fi: FuncInfo, e: ast.AST, ctx: Ctx | None = None):
-    """hashlib.sha1(<node bytes> + <secret>).digest() -> (node bytes expr, secret expr); locals and straight-line helpers are followed"""
+    """hashlib.sha1(<node bytes> + <secret>).digest() -> (node bytes expr, secret expr); locals and straight-line helpers are
+    followed, the pre-image may be assembled by +, b"".join(..), b"%s%s" % (..) or by feeding a hash object piecewise"""
     e = resolve(fi, e)
+    if isinstance(e, ast.Call) and _builtin(fi, e.func, ("next",)) and len(e.args) == 1 and not e.keywords:
+        # next(<generator over a display with one element>): the generator's element for that one value
+        gen = _as_genexp(ctx, fi, e.args[0])
+        if gen is not None and len(gen.generators) == 1 and not gen.generators[0].ifs and isinstance(gen.generators[0].target, ast.Name):
+            one = strip_cast(gen.generators[0].iter)
+            if isinstance(one, (ast.List, ast.Tuple)) and len(one.elts) == 1 and not isinstance(one.elts[0], ast.Starred):
+                e = _subst(gen.elt, {gen.generators[0].target.id: one.elts[0]}, {})
     for _ in range(2):
         x = _call_as_expr(ctx, fi, e)
         if x is None:
             break
         e = resolve(fi, x)
-    if isinstance(e, ast.Call) and call_name(e) == "digest" and not e.args and isinstance(e.func, ast.Attribute) \
-            and isinstance(e.func.value, ast.Call) and chain(e.func.value.func) == "hashlib.sha1" and len(e.func.value.args) == 1:
-        pre = resolve(fi, e.func.value.args[0])
-        pre = _call_as_expr(ctx, fi, pre) or pre
-        if isinstance(pre, ast.BinOp) and isinstance(pre.op, ast.Add):
-            l, r = resolve(fi, pre.left), resolve(fi, pre.right)
-            return _call_as_expr(ctx, fi, l) or l, _call_as_expr(ctx, fi, r) or r
+    e = _fed_hash(fi, e) or e
+    if isinstance(e, ast.Call) and call_name(e) == "digest" and not e.args and isinstance(e.func, ast.Attribute):
+        hobj = _sha1_call(resolve(fi, e.func.value))
+        if hobj is not None and len(hobj.args) == 1:
+            pre = resolve(fi, hobj.args[0])
+            pre = _call_as_expr(ctx, fi, pre) or pre
+            parts = _concat_parts(fi, pre)
+            if len(parts) == 2:
+                l, r = resolve(fi, parts[0]), resolve(fi, parts[1])
+                return _call_as_expr(ctx, fi, l) or l, _call_as_expr(ctx, fi, r) or r
     return None
 
 
+def _is_text_of(fi: FuncInfo, e: ast.AST, param: str) -> bool:
+    """e is the text str(<param>): str(p), f"{p}" / f"{p!s}", "%s" % p, "{}".format(p), format(p), p.__str__()"""
+    e = resolve(fi, e)
+    is_p = lambda x: _rnorm(fi, x) == param  # noqa: E731
+    if isinstance(e, ast.Call) and not e.keywords:
+        if chain(e.func) in ("str", "format") and len(e.args) == 1:
+            return is_p(e.args[0])
+        if isinstance(e.func, ast.Attribute) and e.func.attr == "__str__" and not e.args:
+            return is_p(e.func.value)
+        if isinstance(e.func, ast.Attribute) and e.func.attr == "format" and const_value(e.func.value) in ("{}", "{!s}", "{0}", "{0!s}") and len(e.args) == 1:
+            return is_p(e.args[0])
+    if isinstance(e, ast.JoinedStr) and len(e.values) == 1 and isinstance(e.values[0], ast.FormattedValue):
+        v = e.values[0]
+        return v.conversion in (-1, 115) and v.format_spec is None and is_p(v.value)
+    if isinstance(e, ast.BinOp) and isinstance(e.op, ast.Mod) and const_value(e.left) == "%s":
+        r = e.right.elts[0] if isinstance(e.right, ast.Tuple) and len(e.right.elts) == 1 else e.right
+        return not isinstance(r, ast.Tuple) and is_p(r)
+    return False
+
+
+def _is_utf8(e: ast.AST | None) -> bool:
+    return e is None or str(const_value(e)).lower().replace("-", "").replace("_", "") == "utf8"
+
+
+def _is_newest_secret(fi: FuncInfo, e: ast.AST) -> bool:
+    """self.token_secrets[-1], also as `*_, newest = self.token_secrets` / self.token_secrets[len(self.token_secrets) - 1]"""
+    e = resolve(fi, e)
+    if isinstance(e, ast.Subscript) and norm(e.value) == "self.token_secrets":
+        return norm(e.slice) in ("-1", "len(self.token_secrets) - 1")
+    if isinstance(e, ast.Name) and e.id not in fi.params():
+        defs = local_defs(fi, e.id)
+        if len(defs) == 1 and defs[0][1] is not None and defs[0][2] is not None and isinstance(defs[0][0], ast.Assign) and len(defs[0][0].targets) == 1:
+            t, v = defs[0][0].targets[0], strip_cast(defs[0][1])
+            while isinstance(v, ast.Call) and chain(v.func) in ("list", "tuple") and len(v.args) == 1 and not v.keywords:
+                v = strip_cast(v.args[0])                  # a copy in the same order (not sorted / reversed)
+            return isinstance(t, (ast.Tuple, ast.List)) and len(t.elts) == 2 and isinstance(t.elts[0], ast.Starred) and defs[0][2] == 1 \
+                and norm(v) == "self.token_secrets"
+    return False
+
+
 def _node_bytes(fi: FuncInfo, e: ast.AST, param: str) -> bool:
-    """str(<param>).encode()  (default / utf-8 encoding): address and key of the requester"""
-    if not (isinstance(e, ast.Call) and call_name(e) == "encode" and isinstance(e.func, ast.Attribute) and not e.keywords):
-        return False
-    if e.args and not (len(e.args) == 1 and str(const_value(e.args[0])).lower().replace("-", "") == "utf8"):
-        return False
-    s = resolve(fi, e.func.value)
-    return isinstance(s, ast.Call) and chain(s.func) == "str" and len(s.args) == 1 and not s.keywords and _rnorm(fi, s.args[0]) == param
+    """str(<param>).encode()  (default / utf-8 encoding; also bytes(str(<param>), "utf-8") and the other spellings of the
+    text, see _is_text_of): address and key of the requester"""
+    e = resolve(fi, e)
+    if isinstance(e, ast.Call) and call_name(e) == "encode" and isinstance(e.func, ast.Attribute):
+        enc = arg(e, 0, "encoding")
+        if len(e.args) + len(e.keywords) > (0 if enc is None else 1) or not _is_utf8(enc):
+            return False
+        return _is_text_of(fi, e.func.value, param)
+    if isinstance(e, ast.Call) and chain(e.func) == "bytes" and len(e.args) + len(e.keywords) == 2 and arg(e, 1, "encoding") is not None:
+        return _is_utf8(arg(e, 1, "encoding")) and _is_text_of(fi, e.args[0], param) if e.args else False
+    return False
 
 
 def _token_match(ct: FuncInfo, f, secret_var: str, env: dict | None = None, ctx: Ctx | None = None) -> bool:
     """fact: sha1(str(node) + <secret_var>) == token   (env: names standing for expressions, e.g. the loop variable of a
     `for candidate in <generator helper>` loop standing for the expression the helper yields)"""
     node_p, tok_p = ct.params()[1], ct.params()[2]
+    if f.op == "truthy" and f.pos and isinstance(f.left, ast.Call) and (chain(f.left.func) or "").split(".")[-1] == "compare_digest" \
+            and len(f.left.args) == 2 and not f.left.keywords:
+        f = fact_of(ast.Compare(left=f.left.args[0], ops=[ast.Eq()], comparators=[f.left.args[1]]), True)     # constant-time spelling of ==
     if f.op != "eq" or not f.pos:
         return False
     left, right = (f.left, f.right) if not env else (_subst(f.left, env, {}), _subst(f.right, env, {}))
@@ -964,9 +1926,24 @@ def _generator_call_as_genexp(ctx: Ctx, fi: FuncInfo, e: ast.AST):
         return None
     h, bound = ts[0]
     body = [st for st in h.node.body if not (isinstance(st, ast.Expr) and isinstance(st.value, ast.Constant) and isinstance(st.value.value, str))]
+    # locals computed once before the loop (`identity = str(node).encode()`), each assigned once, are written out as well
+    lets: dict[str, ast.AST] = {}
+    while len(body) > 1 and isinstance(body[0], (ast.Assign, ast.AnnAssign)) and body[0].value is not None:
+        tg = body[0].targets if isinstance(body[0], ast.Assign) else [body[0].target]
+        if len(tg) != 1 or not isinstance(tg[0], ast.Name) or len(local_defs(h, tg[0].id)) != 1 or tg[0].id in h.params():
+            return None
+        lets[tg[0].id] = _subst(body[0].value, lets, {})
+        body = body[1:]
     if len(body) != 1 or not isinstance(body[0], ast.For) or body[0].orelse or not isinstance(body[0].target, ast.Name):
         return None
-    loop, inner, ifs = body[0], body[0].body, []
+    loop, inner, ifs = body[0], list(body[0].body), []
+    # locals of one iteration (`u = self.unserialize_value(value)`), each assigned once, are written out in the test and the element
+    while len(inner) > 1 and isinstance(inner[0], (ast.Assign, ast.AnnAssign)) and inner[0].value is not None:
+        tg = inner[0].targets if isinstance(inner[0], ast.Assign) else [inner[0].target]
+        if len(tg) != 1 or not isinstance(tg[0], ast.Name) or len(local_defs(h, tg[0].id)) != 1 or tg[0].id in h.params():
+            return None
+        lets[tg[0].id] = _subst(inner[0].value, lets, {})
+        inner = inner[1:]
     if len(inner) == 1 and isinstance(inner[0], ast.If) and not inner[0].orelse:
         ifs, inner = [inner[0].test], inner[0].body
     if len(inner) != 1 or not (isinstance(inner[0], ast.Expr) and isinstance(inner[0].value, ast.Yield) and inner[0].value.value is not None):
@@ -977,21 +1954,33 @@ def _generator_call_as_genexp(ctx: Ctx, fi: FuncInfo, e: ast.AST):
     mapping.update({k.arg: k.value for k in e.keywords if k.arg in ps})
     if bound and ps:
         mapping[ps[0]] = ast.Name(id="self", ctx=ast.Load())
-    used = {n.id for x in (loop.iter, inner[0].value.value, *ifs) for n in ast.walk(x) if isinstance(n, ast.Name)}
+    used = {n.id for x in (loop.iter, inner[0].value.value, *ifs, *lets.values()) for n in ast.walk(x) if isinstance(n, ast.Name)}
     if any(local_defs(h, p) for p in ps) or loop.target.id in {n.id for a in mapping.values() for n in ast.walk(a) if isinstance(n, ast.Name)} \
             or any(p in used and p not in mapping for p in ps):
         return None
-    mk = lambda x: _subst(x, mapping, {})  # noqa: E731
+    mk = lambda x: _subst(_subst(x, lets, {}) if lets else x, mapping, {})  # noqa: E731
     return ast.GeneratorExp(elt=mk(inner[0].value.value),
                             generators=[ast.comprehension(target=clone(loop.target), iter=mk(loop.iter), ifs=[mk(t) for t in ifs], is_async=0)])
 
 
-def _flatten_gen(ctx: Ctx, fi: FuncInfo, gen):
-    """(elt for x in <generator helper call>) -> the same elements written over the helper's own loop"""
-    if len(gen.generators) == 1 and isinstance(gen.generators[0].target, ast.Name) and not gen.generators[0].ifs:
-        inner = _generator_call_as_genexp(ctx, fi, gen.generators[0].iter)
+def _flatten_gen(ctx: Ctx | None, fi: FuncInfo, gen, depth: int = 0):
+    """(elt for x in <pipeline / generator helper call / comprehension> [if c]) -> the same elements written over the
+    innermost iteration: x is replaced by the expression the inner iterable yields"""
+    if len(gen.generators) == 1 and not gen.generators[0].is_async:
+        g = gen.generators[0]
+        inner = _as_genexp(ctx, fi, g.iter, depth + 1)
         if inner is not None:
-            return ast.GeneratorExp(elt=_subst(gen.elt, {gen.generators[0].target.id: inner.elt}, {}), generators=inner.generators)
+            env = None
+            if isinstance(g.target, ast.Name):
+                env = {g.target.id: inner.elt}
+            elif isinstance(g.target, ast.Tuple) and isinstance(inner.elt, ast.Tuple) and len(g.target.elts) == len(inner.elt.elts) \
+                    and all(isinstance(t, ast.Name) for t in g.target.elts) and not any(isinstance(x, ast.Starred) for x in inner.elt.elts):
+                env = {t.id: x for t, x in zip(g.target.elts, inner.elt.elts)}
+            if env is not None:
+                last = inner.generators[-1]
+                gens = [*inner.generators[:-1], ast.comprehension(target=last.target, iter=last.iter,
+                                                                  ifs=[*last.ifs, *[_subst(c, env, {}) for c in g.ifs]], is_async=last.is_async)]
+                return ast.GeneratorExp(elt=_subst(gen.elt, env, {}), generators=gens)
     return gen
 
 
@@ -1027,23 +2016,26 @@ def _check_token_ok(ctx: Ctx, ct: FuncInfo) -> bool:
                 if _is_secrets(l.iter):
                     ok = ok or any(_token_match(ct, f, l.target.id, None, ctx) and l in list(ancestors(f.atom)) for f in fs)
                     continue
-                inner = _generator_call_as_genexp(ctx, ct, l.iter)     # for candidate in self._tokens_for(node): ...
-                if inner is not None and not inner.generators[0].ifs and _is_secrets(inner.generators[0].iter):
+                inner = _as_genexp(ctx, ct, l.iter)     # for candidate in self._tokens_for(node) / map(<hash>, secrets): ...
+                if inner is not None and len(inner.generators) == 1 and isinstance(inner.generators[0].target, ast.Name) \
+                        and not inner.generators[0].ifs and _is_secrets(inner.generators[0].iter):
                     ok = ok or any(_token_match(ct, f, inner.generators[0].target.id, {l.target.id: inner.elt}, ctx) and l in list(ancestors(f.atom)) for f in fs)
             if not ok:
                 return False
             positive += 1
             continue
         gen = None
-        if isinstance(v, ast.Call) and chain(v.func) == "any" and len(v.args) == 1 and isinstance(v.args[0], (ast.GeneratorExp, ast.ListComp)):
-            gen = _flatten_gen(ctx, ct, v.args[0])
+        if isinstance(v, ast.Call) and not isinstance(v.func, ast.Name):
+            v = _apply_callable(ctx, ct, v.func, v.args, v.keywords) or v      # operator.contains(<tokens>, token), ...
+        q = _as_quantifier(ctx, ct, v)
+        if q is not None and q[0] == "any":
+            # any(<hash> == token for s in secrets)   /   any(map(<token test>, secrets))   /   next((True for s in secrets if ..), False)
+            gen = q[1]
             atoms = _atoms_with_polarity(gen.elt, True)
         elif isinstance(v, ast.Compare) and len(v.ops) == 1 and isinstance(v.ops[0], ast.In) and _rnorm(ct, v.left) == tok_p:
-            # token in [sha1(str(node) + s) for s in secrets]   /   token in self._tokens_for(node)
-            gen = v.comparators[0] if isinstance(v.comparators[0], (ast.GeneratorExp, ast.ListComp, ast.SetComp)) \
-                else _generator_call_as_genexp(ctx, ct, v.comparators[0])
+            # token in [sha1(str(node) + s) for s in secrets]   /   token in self._tokens_for(node)   /   token in map(<hash>, secrets)
+            gen = _as_genexp(ctx, ct, v.comparators[0])
             if gen is not None:
-                gen = _flatten_gen(ctx, ct, gen)
                 atoms = [fact_of(ast.Compare(left=gen.elt, ops=[ast.Eq()], comparators=[v.left]), True)]
         if gen is None or len(gen.generators) != 1:
             return False
@@ -1056,13 +2048,51 @@ def _check_token_ok(ctx: Ctx, ct: FuncInfo) -> bool:
     return positive >= 1
 
 
+def _unrolled_calls(f: FuncInfo, pattern) -> list:
+    """the calls matching pattern; a call inside `for a, b, kw in (<row>, <row>, ..):` over a table written as a display
+    stands for one call per row, with the loop's names replaced by the row's entries (`**kw` with a dict display: its
+    keywords; getattr(self, "name"): self.name)"""
+    out = []
+    for c in calls(f, pattern):
+        loop = next((l for l in ancestors(c) if isinstance(l, ast.For)), None)
+        names = [] if loop is None else [loop.target] if isinstance(loop.target, ast.Name) else \
+            list(loop.target.elts) if isinstance(loop.target, ast.Tuple) and all(isinstance(x, ast.Name) for x in loop.target.elts) else []
+        table = resolve(f, _unwrap_iter(loop.iter)) if names else None
+        if isinstance(table, ast.Name) and not _is_local(f, table.id) and table.id in f.module.constants:
+            table = strip_cast(f.module.constants[table.id])
+        elif isinstance(table, ast.Attribute) and chain(table.value) in ("self", "cls") and f.cls is not None and f.cls.lookup_attr(table.attr) is not None:
+            table = strip_cast(f.cls.lookup_attr(table.attr))
+        used = {n.id for n in ast.walk(c) if isinstance(n, ast.Name)}
+        if not isinstance(table, (ast.Tuple, ast.List)) or not used & {x.id for x in names} or any(len(local_defs(f, x.id)) != 1 for x in names):
+            out.append(c)
+            continue
+        for row in table.elts:
+            row = strip_cast(row)
+            vals = [row] if isinstance(loop.target, ast.Name) else list(row.elts) if isinstance(row, (ast.Tuple, ast.List)) and len(row.elts) == len(names) else None
+            if vals is None or any(isinstance(x, ast.Starred) for x in vals):
+                out.append(c)
+                break
+            cc = _subst(c, {x.id: v for x, v in zip(names, vals)}, {})
+            kws = []
+            for k in cc.keywords:
+                if k.arg is None and isinstance(k.value, ast.Dict) and all(isinstance(x, ast.Constant) and isinstance(x.value, str) for x in k.value.keys):
+                    kws += [ast.keyword(arg=x.value, value=v) for x, v in zip(k.value.keys, k.value.values)]
+                else:
+                    kws.append(k)
+            cc.keywords = kws
+            cc.args = [ast.Attribute(value=a.args[0], attr=a.args[1].value, ctx=ast.Load())
+                       if isinstance(a, ast.Call) and chain(a.func) == "getattr" and len(a.args) == 2 and isinstance(const_value(a.args[1]), str) else a for a in cc.args]
+            out.append(cc)
+    return out
+
+
 def rule_token(ctx: Ctx) -> None:
     repo = ctx.repo
     gt = repo.method("DHTCommunity", "generate_token", DC)
     ct = repo.method("DHTCommunity", "check_token", DC)
     gr = _returns(gt)
     g = _token_preimage(gt, gr[0].value, ctx) if len(gr) == 1 and gr[0].value is not None else None
-    ok_g = g is not None and not local_defs(gt, gt.params()[1]) and _node_bytes(gt, g[0], gt.params()[1]) and norm(g[1]) == "self.token_secrets[-1]"
+    ok_g = g is not None and not local_defs(gt, gt.params()[1]) and _node_bytes(gt, g[0], gt.params()[1]) and _is_newest_secret(gt, g[1])
     ctx.check(ok_g, "token-preimage", gt, gt.node, "token = sha1(str(node) + newest secret)", "generate_token does not bind the token to the requester identity and the newest secret")
     ok_c = _check_token_ok(ctx, ct)
     ctx.check(ok_c, "token-preimage", ct, ct.node, "check_token compares with sha1(str(node) + s) for s in token_secrets", "check_token accepts tokens not derived from the requester identity and a live secret")
@@ -1077,40 +2107,72 @@ def rule_token(ctx: Ctx) -> None:
     ok = len(sec_stores) == 1 and _used_only_by(repo, sec_stores[0][0], {"DHTCommunity.__init__"})
     if ok:
         v = strip_cast(sec_stores[0][1].value)
-        ok = isinstance(v, ast.Call) and chain(v.func) in ("deque", "collections.deque") and const_value(arg(v, 1, "maxlen")) == 2
+        ml = arg(v, 1, "maxlen") if isinstance(v, ast.Call) else None
+        ok = isinstance(v, ast.Call) and chain(v.func) in ("deque", "collections.deque") and ml is not None \
+            and repo.resolve_const(sec_stores[0][0].module if sec_stores[0][0] is not None else repo.module(DC), ml) == 2
     ctx.check(ok, "token-preimage", DC, "token_secrets", "token_secrets = deque(maxlen=2), assigned once", "more than two secrets stay valid (or the deque is rebound)")
     for fi, c in appends:
         ok = _used_only_by(repo, fi, {"DHTCommunity.token_maintenance"}) and call_name(c) == "append"
         if ok:
             rnd = resolve(fi, arg(c, 0))
-            n = const_value(arg(rnd, 0)) if isinstance(rnd, ast.Call) and chain(rnd.func) == "os.urandom" else None
+            n = repo.resolve_const(fi.module, arg(rnd, 0)) if isinstance(rnd, ast.Call) and chain(rnd.func) in ("os.urandom", "urandom", "secrets.token_bytes") \
+                and arg(rnd, 0) is not None else None
             ok = type(n) is int and n >= 16
         ctx.check(ok, "token-preimage", fi or DC, c, "secrets appended only by token_maintenance (os.urandom(16))", "token secrets are modified elsewhere or are not random")
     init = repo.method("DHTCommunity", "__init__", DC)
     # the constructor, or a private set-up helper only the constructor uses
     setup = [init] + [f for f in init.cls.methods.values() if f is not init and f.name.startswith("_") and _used_only_by(repo, f, {init.qualname})]
-    reg_calls = [c for f in setup for c in calls(f, "self.register_task")]
-    regs = [c for c in reg_calls if chain(arg(c, 1)) == "self.token_maintenance"]
+    reg_calls = [c for f in setup for c in _unrolled_calls(f, "self.register_task")]
+    regs = [c for c in reg_calls if chain(arg(c, 1, "user_task")) == "self.token_maintenance"]
     iv = repo.resolve_const(init.module, arg(regs[0], None, "interval")) if regs else None
     exp = repo.resolve_const(init.module, init.module.constants["TOKEN_EXPIRATION_TIME"])
     ctx.check(isinstance(iv, int) and iv > 0 and 2 * iv <= exp, "token-preimage", init, init.node, f"token_maintenance every {iv}s; two live secrets => validity <= {exp}s",
               "token rotation is not scheduled such that a token expires within TOKEN_EXPIRATION_TIME")
-    vm = [c for c in reg_calls if chain(arg(c, 1)) == "self.value_maintenance"]
+    vm = [c for c in reg_calls if chain(arg(c, 1, "user_task")) == "self.value_maintenance"]
     ctx.check(bool(vm) and (repo.resolve_const(init.module, arg(vm[0], None, "interval")) or 0) > 0, "expiry-sweep", init, init.node,
               "value_maintenance registered periodically", "expired values are never cleaned (value_maintenance not scheduled)")
     vmf = repo.method("DHTCommunity", "value_maintenance", DC)
-    # every storage is cleaned: an unconditional loop over self.storages (values / keys / items) with a clean() call in it
+    # every storage is cleaned: an unconditional loop over self.storages (values / keys / items) with a clean() call in it,
+    # or a pipeline that applies clean to every storage and is run to its end
     ok = False
     cfgm = ctx.cfg(vmf)
+    storages = ("self.storages.values()", "self.storages", "self.storages.keys()", "self.storages.items()")
+
+    def cleans_each(gen) -> bool:
+        """(s.clean() for s in self.storages.values()) in any spelling: map(methodcaller("clean"), ..), map(Storage.clean, ..)"""
+        if gen is None or len(gen.generators) != 1 or gen.generators[0].ifs or gen.generators[0].is_async:
+            return False
+        g, e = gen.generators[0], strip_cast(gen.elt)
+        if not (isinstance(e, ast.Call) and call_name(e) == "clean" and not e.keywords):
+            return False
+        it = chain(_unwrap_iter(g.iter))
+        who = e.func.value if isinstance(e.func, ast.Attribute) and not e.args else e.args[0] if len(e.args) == 1 and chain(e.func) == "Storage.clean" else None
+        if who is None:
+            return False
+        if it == "self.storages.values()":
+            return isinstance(g.target, ast.Name) and isinstance(who, ast.Name) and who.id == g.target.id
+        if it == "self.storages.items()":
+            return isinstance(g.target, ast.Tuple) and len(g.target.elts) == 2 and isinstance(g.target.elts[1], ast.Name) and isinstance(who, ast.Name) \
+                and who.id == g.target.elts[1].id
+        return it in ("self.storages", "self.storages.keys()") and isinstance(g.target, ast.Name) and isinstance(who, ast.Subscript) \
+            and chain(who.value) == "self.storages" and isinstance(who.slice, ast.Name) and who.slice.id == g.target.id
+
     for l in walk_no_nested(vmf.node):
-        if isinstance(l, ast.For) and chain(_unwrap_iter(l.iter)) in ("self.storages.values()", "self.storages", "self.storages.keys()", "self.storages.items()"):
+        if isinstance(l, ast.For) and chain(_unwrap_iter(l.iter)) in storages:
             cl = [c for c in ast.walk(l) if isinstance(c, ast.Call) and call_name(c) == "clean"]
             early = [x for x in ast.walk(l) if isinstance(x, (ast.Break, ast.Return, ast.Continue))]
             ok = ok or (bool(cl) and not early and any(not facts_at(cfgm, c) for c in cl))
-        elif isinstance(l, (ast.ListComp, ast.GeneratorExp, ast.SetComp)) and len(l.generators) == 1 and not l.generators[0].ifs \
-                and chain(_unwrap_iter(l.generators[0].iter)) in ("self.storages.values()", "self.storages", "self.storages.items()") \
-                and isinstance(l, ast.ListComp) and isinstance(l.elt, ast.Call) and call_name(l.elt) == "clean":
-            ok = True
+        elif isinstance(l, ast.For) and not facts_at(cfgm, l):
+            # for _ in map(methodcaller("clean"), self.storages.values()): pass   - the loop drives the pipeline to its end
+            early = [x for x in ast.walk(l) if isinstance(x, (ast.Break, ast.Return))]
+            ok = ok or (not early and cleans_each(_as_genexp(ctx, vmf, l.iter)))
+        elif isinstance(l, (ast.ListComp, ast.SetComp)) and not facts_at(cfgm, l):
+            ok = ok or cleans_each(_as_genexp(ctx, vmf, l))
+        elif isinstance(l, ast.Call) and chain(l.func) in ("list", "tuple", "set", "deque", "collections.deque") and l.args and not facts_at(cfgm, l):
+            # list(map(..)) / deque(map(..), maxlen=0): consumers that run the pipeline to its end
+            inner = strip_cast(l.args[0])
+            if not isinstance(inner, (ast.ListComp, ast.SetComp)):
+                ok = ok or cleans_each(_as_genexp(ctx, vmf, inner))
     ctx.check(ok, "expiry-sweep", vmf, vmf.node, "value_maintenance cleans every storage", "value_maintenance skips storages")
 
 
@@ -1177,17 +2239,24 @@ def _argument_sources(repo, g: FuncInfo, e: ast.AST | None, site: ast.AST, ctx: 
     return [(g, e)]
 
 
-def _version_key(call: ast.Call, vpos: int) -> bool:
-    """max / sorted / sort call orders entries by their version element (position vpos)"""
+def _version_key(call: ast.Call, vpos: int, vfield: str | None = None) -> bool:
+    """max / sorted / sort call orders entries by their version element (position vpos / field vfield)"""
     key = arg(call, None, "key")
     if key is None:
         return vpos == 0                   # tuples compare by their first element first
     if isinstance(key, ast.Lambda) and len(key.args.args) == 1:
         b = key.body
+        if vfield is not None and isinstance(b, ast.Attribute) and isinstance(b.value, ast.Name) and b.value.id == key.args.args[0].arg and b.attr == vfield:
+            return True
         return isinstance(b, ast.Subscript) and isinstance(b.value, ast.Name) and b.value.id == key.args.args[0].arg and const_value(b.slice) == vpos \
             and type(const_value(b.slice)) is int
+    if isinstance(key, ast.Call) and chain(key.func) in ("attrgetter", "operator.attrgetter") and len(key.args) == 1:
+        return vfield is not None and const_value(key.args[0]) == vfield
     return isinstance(key, ast.Call) and chain(key.func) in ("itemgetter", "operator.itemgetter") and len(key.args) == 1 \
         and type(const_value(key.args[0])) is int and const_value(key.args[0]) == vpos
+
+
+_LOOKUP_ERRORS = ("KeyError", "LookupError", "IndexError")
 
 
 def _selects_newest_per_signer(ctx: Ctx, pp: FuncInfo) -> bool:
@@ -1195,23 +2264,30 @@ def _selects_newest_per_signer(ctx: Ctx, pp: FuncInfo) -> bool:
     post_process_values reports, per signer, an entry with the highest verified version.  Two ways of computing it:
       (A) collect (version, data) entries per signer, then take max(..) / the head of a descending sort by the version;
       (B) keep one entry per signer and overwrite it only on paths where the signer was absent or the new version is
-          higher (or equal) than the kept one - a running maximum, decided as a path query.
+          higher (or equal) than the kept one - a running maximum, decided as a path query; a test that lives in a
+          decision helper is followed into the helper's returns, a failed `D[signer]` lookup caught as KeyError says `absent`.
     Signer / data / version are the elements 1 / 0 / 2 of the unserialize_value result, followed through locals.
+    Entries may be tuples or small result objects (NamedTuple / dataclass) that carry the version in a field.
     """
     cfgp = ctx.cfg(pp)
+    repo = ctx.repo
     is_unser = lambda e: isinstance(e, ast.Call) and chain(e.func) == "self.unserialize_value"  # noqa: E731
 
     def elem(x, site):
-        el = _elem_of(pp, x, cfgp, site)
+        el = _elem_of(pp, x, cfgp, site, ctx)
         return el[1] if el is not None and is_unser(el[0]) else None
 
     def version_pos(t, site):
-        """where the version sits in a kept entry that also carries the data (None: not such an entry)"""
+        """(position, field name | None) of the version in a kept entry that also carries the data (None: not such an entry)"""
         t = strip_cast(t)
         if isinstance(t, (ast.Tuple, ast.List)):
             idx = [elem(x, site) for x in t.elts]
-            return idx.index(2) if 2 in idx and 0 in idx else None
-        return 2 if is_unser(resolve(pp, t)) else None      # the unserialized (data, key, version) tuple itself
+            return (idx.index(2), None) if 2 in idx and 0 in idx else None
+        fields = _ctor_fields(repo, pp, t)
+        if fields is not None:
+            idx = [elem(fields[nm], site) for nm in fields[None]]
+            return (idx.index(2), fields[None][idx.index(2)]) if 2 in idx and 0 in idx else None
+        return (2, None) if is_unser(resolve(pp, t)) else None      # the unserialized (data, key, version) tuple itself
 
     def signer_slot(e, site):
         """e denotes <dict>[<signer>] / <dict>.setdefault(<signer>, ..) / <dict>.get(<signer>, ..): -> the dict expression"""
@@ -1233,13 +2309,13 @@ def _selects_newest_per_signer(ctx: Ctx, pp: FuncInfo) -> bool:
         if vp is not None:
             vpos = vp
     if vpos is not None:
-        best = [c for c in calls(pp, "max") if len(c.args) == 1 and _version_key(c, vpos)]
+        best = [c for c in calls(pp, "max") if len(c.args) == 1 and _version_key(c, *vpos)]
         for c in calls(pp, "sorted"):
             p = parent(c)
             rev = arg(c, None, "reverse")
             desc = rev is not None and const_value(rev) is True
             if isinstance(p, ast.Subscript) and p.value is c and len(c.args) == 1 and (rev is None or isinstance(rev, ast.Constant)) \
-                    and const_value(p.slice) == (0 if desc else -1) and type(const_value(p.slice)) is int and _version_key(c, vpos):
+                    and const_value(p.slice) == (0 if desc else -1) and type(const_value(p.slice)) is int and _version_key(c, *vpos):
                 best.append(c)
         if len(best) == 1 and len(calls(pp, "max")) + len(calls(pp, "sorted")) == 1:
             return True
@@ -1260,9 +2336,15 @@ def _selects_newest_per_signer(ctx: Ctx, pp: FuncInfo) -> bool:
                         kept = isinstance(r, ast.Subscript) and chain(r.value) == dn and elem(r.slice, st) == 1 or \
                             isinstance(r, ast.Call) and chain(r.func) == dn + ".get" and r.args and elem(r.args[0], st) == 1 \
                             and (len(r.args) == 1 or version_pos(r.args[1], st) == nvp)
-                        if kept and nvp is not None and _version_key(v, nvp):
+                        if kept and nvp is not None and _version_key(v, *nvp):
                             vp, selfmax = nvp, True
                 keeps.append((st, strip_cast(t.value).id, vp, selfmax))
+    selecting = [n for n in ast.walk(pp.node) if isinstance(n, ast.Call) and (chain(n.func) or "").split(".")[-1] in ("max", "sorted", "sort", "groupby", "reduce", "nlargest")
+                 or isinstance(n, ast.Compare) and any(isinstance(o, (ast.Lt, ast.LtE, ast.Gt, ast.GtE)) for o in n.ops)]
+    if not keeps and vpos is None and selecting:
+        # something is ordered / compared, but not in one of the two recognised structures
+        raise AnalysisError("undecided: how post_process_values selects the entry it reports per signer (neither a per-signer collection "
+                            "with a maximum nor a kept entry per signer was found)")
     if not keeps or len({k[1] for k in keeps}) != 1 or any(k[2] is None for k in keeps):
         return False
     dname = keeps[0][1]
@@ -1276,16 +2358,29 @@ def _selects_newest_per_signer(ctx: Ctx, pp: FuncInfo) -> bool:
         e = resolve(pp, e)
         return d is not None and is_d(d) and not (isinstance(e, ast.Call) and e.func.attr == "setdefault")
 
+    root = _Frame(ctx, pp, pp.node)
+
+    def mapped(g: _Frame, e):
+        """an expression of the frame's function in post_process_values' terms (a helper's parameters are its arguments)"""
+        return e if g.up is None or e is None else g.top(e, follow=False)
+
     for st, _, vp, selfmax in keeps:
         if selfmax:
             continue
+        vidx, vfield = vp
 
-        def kept_version(e, st=st, vp=vp):
-            el = _elem_of(pp, e, cfgp, st)
-            return el is not None and el[1] == vp and kept_entry(el[0], st)
+        def kept_version(e, st=st, vidx=vidx, vfield=vfield):
+            x = strip_cast(e)
+            if isinstance(x, ast.Name):
+                d = _reaching_def(pp, x.id, cfgp, st, ctx)
+                if d is not None and d[1] is None:
+                    x = strip_cast(d[0])
+            if vfield is not None and isinstance(x, ast.Attribute) and x.attr == vfield and kept_entry(x.value, st):
+                return True
+            el = _elem_of(pp, e, cfgp, st, ctx)
+            return el is not None and el[1] == vidx and kept_entry(el[0], st)
 
-        def absent_or_newer(u, v, lab, st=st, kept_version=kept_version):
-            f = _cond_edge_fact(u, lab)
+        def absent_or_newer_fact(f, st=st, kept_version=kept_version):
             if f is None:
                 return False
             if f.op == "in" and not f.pos and elem(f.left, st) == 1:
@@ -1298,8 +2393,55 @@ def _selects_newest_per_signer(ctx: Ctx, pp: FuncInfo) -> bool:
             if f.op == "lt":
                 return f.pos and kept_version(f.left) and elem(f.right, st) == 2 or not f.pos and elem(f.left, st) == 2 and kept_version(f.right)
             return False
-        ns = [n for n in cfgp.nodes_for(st) if cfgp.reachable(n)]
-        if not ns or not all(cfgp.must_pass_edges(n, absent_or_newer) for n in ns):
+
+        def lookup_missed(g: _Frame, u, v, st=st) -> bool:
+            """the edge leaves a statement whose only possible KeyError is the read of D[signer], into handlers for lookup errors"""
+            if v.kind != "dispatch" or u.ast is None or u.kind not in ("stmt", "cond") or not isinstance(v.ast, ast.Try):
+                return False
+            for h in v.ast.handlers:
+                ts = [h.type] if not isinstance(h.type, ast.Tuple) else list(h.type.elts)
+                if h.type is None or any(chain(t) not in _LOOKUP_ERRORS for t in ts):
+                    return False
+            reads = 0
+            for x in walk_no_nested(u.ast):
+                if isinstance(x, ast.Call):
+                    return False
+                if isinstance(x, ast.Subscript) and isinstance(x.ctx, ast.Load):
+                    if type(const_value(x.slice)) is int:
+                        continue
+                    if not kept_entry(mapped(g, x), st):
+                        return False
+                    reads += 1
+            return reads == 1
+
+        memo: dict = {}
+
+        def edge_ok(g: _Frame, u, v, lab) -> bool:
+            k = (id(g.fi.node), id(u), id(v), lab)
+            if k in memo:
+                return memo[k]
+            memo[k] = False
+            ok = False
+            if lab == "exc":
+                ok = lookup_missed(g, u, v)
+            else:
+                f = _cond_edge_fact(u, lab)
+                if f is not None:
+                    ok = absent_or_newer_fact(fact_of(u.ast, lab) if g.up is None else _mapped_fact(g, f))
+                    if not ok and g.depth < 2:
+                        grp = _decision_frames(g.at(u.ast), f)
+                        ok = bool(grp) and all(guarded(x) for x in grp)
+            memo[k] = ok
+            return ok
+
+        def guarded(g: _Frame) -> bool:
+            """the frame's site is reached only over an edge that establishes `signer absent` or `new version higher`"""
+            if any(absent_or_newer_fact(_mapped_fact(g, f) if g.up is not None else f) for f in g.extra):
+                return True
+            ns = g.nodes()
+            return bool(ns) and not any(n in g.reach(cut_edge=lambda u, v, lab: edge_ok(g, u, v, lab)) for n in ns)
+
+        if not guarded(root.at(st)):
             return False
     # nothing else changes the kept entries, and the result is built from them
     for c in calls(pp):
@@ -1311,6 +2453,11 @@ def _selects_newest_per_signer(ctx: Ctx, pp: FuncInfo) -> bool:
     uses = [x for r in _returns(pp) if r.value is not None for x in ast.walk(r.value)]
     uses += [x for l in walk_no_nested(pp.node) if isinstance(l, (ast.For, ast.comprehension)) for x in ast.walk(l.iter)]
     return any(isinstance(x, ast.Name) and x.id == dname for x in uses)
+
+
+def _mapped_fact(g: _Frame, f):
+    """a fact of a helper's frame with both sides written in the anchor function's terms"""
+    return Fact(f.op, g.top(f.left, follow=False), g.top(f.right, follow=False) if f.right is not None else None, f.pos, f.atom)
 
 
 def rule_signed(ctx: Ctx) -> None:
@@ -1326,6 +2473,9 @@ def rule_signed(ctx: Ctx) -> None:
             is_value = lambda e, fr=fr: fr.text(e) == value  # noqa: E731
             if rv is None or _is_none(rv):
                 continue
+            robj = _ctor_fields(repo, lf, rv) if isinstance(rv, ast.Call) else None
+            if robj is not None and len(robj[None]) == 3:
+                rv = ast.Tuple(elts=[robj[nm] for nm in robj[None]], ctx=ast.Load())      # a three-field result object is the (data, key, version) tuple
             if not (isinstance(rv, ast.Tuple) and len(rv.elts) == 3):
                 if isinstance(rv, ast.Name) and all(d[1] is not None and (_is_none(d[1]) or isinstance(d[1], ast.Tuple) and len(d[1].elts) == 3
                                                                           and _is_none(d[1].elts[1])) for d in local_defs(lf, rv.id)):
@@ -1337,7 +2487,7 @@ def rule_signed(ctx: Ctx) -> None:
             n += 1
             pk_text = fr.text(pk)
 
-            def verified(g: _Frame, pk_text=pk_text) -> bool:
+            def verified(g: _Frame, pk_text=pk_text, pk=pk, lf=lf) -> bool:
                 gi = g.fi
                 g_value = lambda e: g.text(e) == value  # noqa: E731
                 for f in g.facts():
@@ -1346,10 +2496,19 @@ def rule_signed(ctx: Ctx) -> None:
                         continue
                     k, d, s = (resolve(gi, a) for a in f.left.args)
                     key_ok = isinstance(k, ast.Call) and call_name(k) == "key_from_public_bin" and g.text(arg(k, 0)) == pk_text
+                    if not key_ok and isinstance(k, ast.Call) and call_name(k) == "key_from_public_bin" and g.up is not None and g.up.fi is lf:
+                        # the reported key is a component of the helper's answer (`check.payload.public_key`): compare inside the helper
+                        pulled = g.pull(pk)
+                        key_ok = pulled is not None and g.text(arg(k, 0)) == g.text(pulled)
 
                     def neg_len(e, k=k):
+                        """the cut between signed part and signature: -L, or len(value) - L, with L = get_signature_length(<the key>)"""
                         e = resolve(gi, e)
                         e2 = resolve(gi, e.operand) if isinstance(e, ast.UnaryOp) and isinstance(e.op, ast.USub) else None
+                        if e2 is None and isinstance(e, ast.BinOp) and isinstance(e.op, ast.Sub):
+                            whole = resolve(gi, e.left)
+                            if isinstance(whole, ast.Call) and chain(whole.func) == "len" and len(whole.args) == 1 and g_value(whole.args[0]):
+                                e2 = resolve(gi, e.right)
                         return isinstance(e2, ast.Call) and call_name(e2) == "get_signature_length" and norm(resolve(gi, arg(e2, 0))) == norm(k)
                     d_ok = isinstance(d, ast.Subscript) and g_value(d.value) and isinstance(d.slice, ast.Slice) and d.slice.lower is None \
                         and d.slice.step is None and d.slice.upper is not None and neg_len(d.slice.upper)
@@ -1369,7 +2528,14 @@ def rule_signed(ctx: Ctx) -> None:
 
     # lookups: per signer the entry with the highest version
     pp = repo.method("DHTCommunity", "post_process_values", DC)
-    us = [c for c in calls(pp, "self.unserialize_value")]
+    # every use of unserialize_value: called, or handed to map() as the function applied to every value
+    us = [a for a in walk_no_nested(pp.node) if isinstance(a, ast.Attribute) and chain(a) == "self.unserialize_value"]
+    if not us:
+        # ... or inside a private helper (e.g. a generator of the unserialized values) that only post_process_values uses
+        for c in calls(pp):
+            for h, _b in (_callee_targets(repo, pp, c.func) or []):
+                if h.name.startswith("_") and _used_only_by(repo, h, {pp.qualname}):
+                    us += [a for a in walk_no_nested(h.node) if isinstance(a, ast.Attribute) and chain(a) == "self.unserialize_value"]
     ok = _selects_newest_per_signer(ctx, pp)
     ctx.check(ok, "signed-means-verified", pp, pp.node, "per signer the entry with max(version) is reported", "lookups do not report the highest version per signer")
     ctx.check(len(us) == 1, "signed-means-verified", pp, pp.node, "lookup results go through unserialize_value", "lookup results bypass signature verification")
@@ -1395,14 +2561,13 @@ def rule_signed(ctx: Ctx) -> None:
         and _rnorm(av, arg(resolve(av, e), 0)) == valp  # noqa: E731
 
     def is_elem(e, idx):
-        el = _elem_of(av, e)
+        el = _elem_of(av, e, None, None, ctx)
         return el is not None and is_unser_v(el[0]) and el[1] == idx
 
     def is_signer_hash(e):
         e = resolve(av, e)
-        return isinstance(e, ast.Call) and call_name(e) == "digest" and not e.args and isinstance(e.func, ast.Attribute) \
-            and isinstance(e.func.value, ast.Call) and chain(e.func.value.func) == "hashlib.sha1" and len(e.func.value.args) == 1 \
-            and is_elem(e.func.value.args[0], 1)
+        h = _sha1_call(resolve(av, e.func.value)) if isinstance(e, ast.Call) and call_name(e) == "digest" and not e.args and isinstance(e.func, ast.Attribute) else None
+        return h is not None and len(h.args) == 1 and is_elem(h.args[0], 1)
 
     def signer_present(f):
         return f.op == "truthy" and f.pos and is_elem(f.left, 1)
@@ -1443,33 +2608,48 @@ def rule_signed(ctx: Ctx) -> None:
                     out.append((st2, ast.Subscript(value=x, slice=ast.Constant(value=idx), ctx=ast.Load())))
         return out
 
-    def id_ok(put: ast.Call) -> bool:
+    def signer_fact(g: _Frame, f, present: bool) -> bool:
+        """f (a fact of frame g) says the signer element of the unserialized value is present / absent"""
+        if f.op != "truthy" and not (f.op == "is" and _is_none(f.right)):
+            return False
+        pos = f.pos if f.op == "truthy" else not f.pos
+        return pos is present and is_elem(f.left if g.up is None else g.top(f.left, follow=False), 1)
+
+    hashed_somewhere: list = []
+
+    def id_ok(site: ast.Call, put: ast.Call) -> bool:
         e = strip_cast(arg(put, 2, "id_")) if arg(put, 2, "id_") is not None else None
         if e is None:
             return False
         r = resolve(av, e)
-        if isinstance(r, ast.IfExp):
-            fs = _atoms_with_polarity(r.test, True)
-            if len(fs) != 1 or fs[0].op != "truthy" or not is_elem(fs[0].left, 1):
-                return False
-            yes, no = (r.body, r.orelse) if fs[0].pos else (r.orelse, r.body)
-            return is_signer_hash(yes) and _is_none(resolve(av, no))
         if not isinstance(r, ast.Name):
-            return False
+            # every way the id expression can produce its value (arms of a conditional, results of a helper): the signer's
+            # hash where the signer is known to be present, None where it is known to be absent
+            leaves = list(_result_leaves(ctx, _Frame(ctx, av, site), r))
+            for g, v in leaves:
+                fs = g.facts()
+                if _is_none(v):
+                    if not any(signer_fact(g, f, False) for f in fs):
+                        return False
+                elif not (is_signer_hash(v if g.up is None else g.top(v, follow=False)) and any(signer_fact(g, f, True) for f in fs)):
+                    return False
+            hashed_somewhere.extend(v for _g, v in leaves if not _is_none(v))
+            return bool(leaves)
         # several reaching definitions: `id_ = None` and, only for a present signer, `id_ = sha1(signer)`
-        leaves = def_leaves(r, put)
-        if leaves is None or any(st is put for st, _ in leaves):
+        leaves = def_leaves(r, site)
+        if leaves is None or any(st is site for st, _ in leaves):
             return False
         hashed = [(st, x, None) for st, x in leaves if is_signer_hash(x)]
         empty = [(st, x, None) for st, x in leaves if _is_none(resolve(av, x))]
         if not hashed or len(hashed) + len(empty) != len(leaves):
             return False
+        hashed_somewhere.extend(hashed)
         if all(any(signer_present(f) for f in facts_at(cfgv, d[0])) for d in hashed) \
                 and all(any(f.op == "truthy" and not f.pos and is_elem(f.left, 1) for f in facts_at(cfgv, d[0])) for d in empty):
             return True                            # each definition is taken exactly for a present / an absent signer
         hn = [n for d in hashed for n in cfgv.nodes_for(d[0])]
         en = [n for d in empty for n in cfgv.nodes_for(d[0])]
-        pn = cfgv.nodes_for(put)
+        pn = cfgv.nodes_for(site)
         # the hash is only taken for a present signer ...
         if not all(any(signer_present(f) for f in facts_at(cfgv, d[0])) for d in hashed):
             return False
@@ -1487,14 +2667,25 @@ def rule_signed(ctx: Ctx) -> None:
                 return False
         return True
 
-    puts = [c for c in calls(av) if call_name(c) == "put"]
-    ok = len(puts) == 1
-    if ok:
-        p = puts[0]
-        vl = def_leaves(arg(p, 4, "version"), p) if arg(p, 4, "version") is not None else None
-        ok = bool(vl) and all(is_elem(x, 2) for _st, x in vl) and id_ok(p) and _rnorm(av, arg(p, 0, "key")) == keyp and _rnorm(av, arg(p, 1, "data")) == valp \
-            and not local_defs(av, keyp) and not local_defs(av, valp)
-        ok = ok and any(_truth_fact(f, is_unser_v) for f in _Frame(ctx, av, p).facts())
+    if any(isinstance(x, ast.Match) for x in ast.walk(av.node)):
+        raise AnalysisError("undecided: add_value acts on the unserialized value with a `match` statement whose patterns bind names "
+                            "(sequence / class patterns are not rewritten by the engine)")
+    # storage.put(..), also called through functools.partial(storage.put, <leading arguments>)
+    puts = []
+    for c in calls(av):
+        if call_name(c) == "put" and isinstance(c.func, ast.Attribute):
+            puts.append((c, c))
+        elif isinstance(c.func, ast.Name) and isinstance(resolve(av, c.func), ast.Call):
+            x = _apply_callable(ctx, av, c.func, list(c.args), list(c.keywords))
+            if isinstance(x, ast.Call) and call_name(x) == "put" and isinstance(x.func, ast.Attribute):
+                puts.append((c, x))
+    ok = bool(puts) and not local_defs(av, keyp) and not local_defs(av, valp)
+    for site, p in puts:
+        vl = def_leaves(arg(p, 4, "version"), site) if arg(p, 4, "version") is not None else None
+        ok = ok and bool(vl) and all(is_elem(x, 2) for _st, x in vl) and id_ok(site, p) and _rnorm(av, arg(p, 0, "key")) == keyp \
+            and _rnorm(av, arg(p, 1, "data")) == valp
+        ok = ok and any(_truth_fact(f, is_unser_v) for f in _Frame(ctx, av, site).facts())
+    ok = ok and bool(hashed_somewhere)             # a signed value is stored under its signer's hash somewhere
     ctx.check(ok, "signed-means-verified", av, av.node, "add_value stores only values that unserialize (valid signature if signed), keyed by signer, with their version",
               "add_value stores values that failed verification or loses signer/version")
 
@@ -1541,29 +2732,81 @@ def _put_version_guard(ctx: Ctx, put: FuncInfo):
     def is_new_in(fr: _Frame, e) -> bool:
         return e is not None and fr.text(e, follow=False) in news
 
+    def same_id_fact(fr: _Frame, f, e, pos: bool) -> bool:
+        """f says (pos) / denies (not pos): e == <new value>   (also written over the ids)"""
+        if f is None or f.op != "eq" or f.pos is not pos or f.right is None:
+            return False
+        is_e = e if callable(e) else (lambda x: norm(x) == norm(e))
+        for x, y in ((f.left, f.right), (f.right, f.left)):
+            if is_e(strip_cast(x)) and is_new_in(fr, y):
+                return True
+            x, y = strip_cast(x), strip_cast(y)
+            if isinstance(x, ast.Attribute) and isinstance(y, ast.Attribute) and x.attr == y.attr == "id" and is_e(strip_cast(x.value)) \
+                    and is_new_in(fr, y.value):
+                return True
+        return False
+
+    def search_lookup(fr: _Frame, c):
+        """next((i for i, v in enumerate(<list>) if v == <new value>), S)  /  next(i for i in range(len(<list>)) if <list>[i] == <new value>):
+        the position of the stored entry with the new value's id -> what a failed search answers: the constant S (None or a
+        negative integer, which is no position) or "raise" (no default: StopIteration); None when c is not such a search"""
+        c = strip_cast(c) if c is not None else None
+        if not (isinstance(c, ast.Call) and _builtin(fr.fi, c.func, ("next",)) and 1 <= len(c.args) <= 2 and not c.keywords):
+            return None
+        gen = _as_genexp(ctx, fr.fi, c.args[0])
+        if gen is None or len(gen.generators) != 1 or gen.generators[0].is_async or len(gen.generators[0].ifs) != 1:
+            return None
+        g = gen.generators[0]
+        atoms = _atoms_with_polarity(g.ifs[0], True)
+        it = _unwrap_copy(g.iter)                     # positions: the order of the iteration matters
+        pos, elem = None, None
+        if isinstance(it, ast.Call) and chain(it.func) == "enumerate" and len(it.args) == 1 and not it.keywords and is_list_in(fr, _unwrap_copy(it.args[0])) \
+                and isinstance(g.target, ast.Tuple) and len(g.target.elts) == 2 and all(isinstance(x, ast.Name) for x in g.target.elts):
+            pos = g.target.elts[0].id
+            elem = lambda x, n=g.target.elts[1].id: isinstance(x, ast.Name) and x.id == n  # noqa: E731
+        elif isinstance(it, ast.Call) and chain(it.func) == "range" and len(it.args) == 1 and not it.keywords and isinstance(g.target, ast.Name) \
+                and _len_of(fr, it.args[0], lambda x: is_list_in(fr, x)):
+            pos = g.target.id
+            elem = lambda x, n=pos: isinstance(x, ast.Subscript) and is_list_in(fr, x.value) and isinstance(x.slice, ast.Name) and x.slice.id == n  # noqa: E731
+        if pos is None or not (isinstance(gen.elt, ast.Name) and gen.elt.id == pos) or len(atoms) != 1 or not same_id_fact(fr, atoms[0], elem, True):
+            return None
+        if len(c.args) == 1:
+            return "raise"
+        sentinel = strip_cast(c.args[1])
+        if _is_none(sentinel) or type(const_value(sentinel)) is int and const_value(sentinel) < 0:
+            return sentinel
+        return None
+
+    def lookup_kind(fr: _Frame, c):
+        """"raise" / the `not found` constant when c looks up the position of the new value's id in the list, else None"""
+        if isinstance(c, ast.Call) and call_name(c) == "index" and isinstance(c.func, ast.Attribute) and is_list_in(fr, c.func.value) \
+                and len(c.args) == 1 and not c.keywords and is_new_in(fr, c.args[0]):
+            return "raise"                          # <list>.index(<new value>)
+        return search_lookup(fr, c)
+
     def is_lookup(fr: _Frame, c) -> bool:
-        """<list>.index(<new value>)"""
-        return isinstance(c, ast.Call) and call_name(c) == "index" and isinstance(c.func, ast.Attribute) and is_list_in(fr, c.func.value) \
-            and len(c.args) == 1 and not c.keywords and is_new_in(fr, c.args[0])
+        return lookup_kind(fr, c) is not None
 
     def lookup_calls(fr: _Frame):
         """calls in the frame's function that answer the position of the new value's id in the list: the index() lookup
-        itself, or a helper every result of which is that lookup or None (`not found`)"""
+        itself, a next() search for it, or a helper every result of which is that lookup or None (`not found`)"""
         out = []
         for c in calls(fr.fi):
             if is_lookup(fr, c):
                 out.append(c)
             elif fr.depth < 2 and _call_targets(ctx, fr.fi, c) and any(is_new_in(fr, a) for a in [*c.args, *[k.value for k in c.keywords]]):
                 leaves = list(_result_leaves(ctx, fr.at(c), c))
-                if leaves and all(_is_none(v) or is_lookup(g, v) for g, v in leaves) and any(is_lookup(g, v) for g, v in leaves):
+                if leaves and all(_is_none(v) or lookup_kind(g, v) == "raise" for g, v in leaves) and any(is_lookup(g, v) for g, v in leaves):
                     out.append(c)
         return out
 
     index_calls = lookup_calls(root)
     idx_names: set[str] = set()
+    idx_kind: dict = {}
     for st, targets, value in _assignments(put):
         if strip_cast(value) in index_calls:
             idx_names |= {t.id for t in targets if isinstance(t, ast.Name)}
+            idx_kind.update({t.id: lookup_kind(root, strip_cast(value)) or "raise" for t in targets if isinstance(t, ast.Name)})
     cfg = ctx.cfg(put)
     index_nodes = [n for c in index_calls for n in cfg.nodes_for(c)]
     found_after = cfg.reach([v for u in index_nodes for v, lab in u.succ if lab != "exc"])
@@ -1575,11 +2818,34 @@ def _put_version_guard(ctx: Ctx, put: FuncInfo):
             if not _is_none(val) or any(n in found_after for n in cfg.nodes_for(st)):
                 raise AnalysisError(f"undecided: Storage.put rebinds the lookup result `{nm}` ({head(st)})")
 
-    def is_idx(fr: _Frame, e) -> bool:
-        e = strip_cast(e)
+    def idx_sentinel(fr: _Frame, e):
+        """e is the position the lookup answered -> "raise" or the lookup's `not found` constant; None when e is something else"""
+        e = strip_cast(e) if e is not None else None
+        if e is None:
+            return None
+        if isinstance(e, ast.Name) and fr.text(e, follow=False) in idx_names:
+            return idx_kind[fr.text(e, follow=False)]
         if fr.up is None:
-            return isinstance(e, ast.Name) and e.id in idx_names or e in index_calls
-        return isinstance(e, ast.Name) and fr.text(e, follow=False) in idx_names or is_lookup(fr, resolve(fr.fi, e))
+            return (lookup_kind(fr, e) or "raise") if e in index_calls else None
+        return lookup_kind(fr, resolve(fr.fi, e))
+
+    def is_idx(fr: _Frame, e) -> bool:
+        return idx_sentinel(fr, e) is not None
+
+    def miss_fact(fr: _Frame, f, missed: bool) -> bool:
+        """f says that a search with an integer `not found` answer missed (missed) / hit (not missed): the position is compared
+        with a constant such that only the negative answer / only a position can satisfy it"""
+        def is_pos(x):
+            k = idx_sentinel(fr, x)
+            return k is not None and k != "raise" and type(const_value(k)) is int
+        b = _int_bound(f, is_pos)
+        if b is None:
+            return False
+        subj = next(x for x in (f.left, f.right) if is_pos(x))
+        sentinel = const_value(idx_sentinel(fr, subj))
+        if missed:
+            return b[0] == "lt" and b[1] <= 0 or b[0] == "eq" and b[1] < 0
+        return b[0] == "ge" and b[1] >= 0 or b[0] == "eq" and b[1] >= 0 or b[0] == "ne" and b[1] == sentinel
 
     def element_loops(fr: _Frame, e):
         """the loops / comprehensions of the frame's function that bind the name e to an element of the list"""
@@ -1597,19 +2863,6 @@ def _put_version_guard(ctx: Ctx, put: FuncInfo):
                 out.append(l)
         return out
 
-    def same_id_fact(fr: _Frame, f, e, pos: bool) -> bool:
-        """f says (pos) / denies (not pos): e == <new value>   (also written over the ids)"""
-        if f is None or f.op != "eq" or f.pos is not pos or f.right is None:
-            return False
-        for x, y in ((f.left, f.right), (f.right, f.left)):
-            if norm(strip_cast(x)) == norm(e) and is_new_in(fr, y):
-                return True
-            x, y = strip_cast(x), strip_cast(y)
-            if isinstance(x, ast.Attribute) and isinstance(y, ast.Attribute) and x.attr == y.attr == "id" and norm(strip_cast(x.value)) == norm(e) \
-                    and is_new_in(fr, y.value):
-                return True
-        return False
-
     def searched_entry(fr: _Frame, e):
         """e = next((v for v in <list> if v == new), None): the stored entry with the new value's id, or None"""
         r = resolve(fr.fi, e)
@@ -1624,11 +2877,35 @@ def _put_version_guard(ctx: Ctx, put: FuncInfo):
     def is_old_in(fr: _Frame, e, facts=None) -> bool:
         """e is the stored entry that has the new value's id"""
         r = resolve(fr.fi, e)
+        facts = fr.facts() if facts is None else facts
         if isinstance(r, ast.Subscript) and is_list_in(fr, r.value) and is_idx(fr, r.slice):
-            return True
+            k = idx_sentinel(fr, r.slice)
+            if k == "raise" or _is_none(k):
+                return True                        # a failed lookup raised / answered None, which is no subscript
+            # a negative `not found` answer is a subscript as well (another entry): the search must be known to have hit
+            return any(miss_fact(fr, f, False) for f in facts)
         if searched_entry(fr, e):
             return True
-        facts = fr.facts() if facts is None else facts
+        # a component of a lookup helper's answer (`slot.occupant` for `slot = self._find_slot(stored, new)`): in every return of
+        # the helper that component is the stored entry with the new value's id, or None (which has no version to compare)
+        base, comp = _split_component(r) if isinstance(r, (ast.Attribute, ast.Subscript)) else (r, None)
+        if comp is not None and fr.depth < 2:
+            ac = _answer_call(fr, base, enclosing_stmt(e) if getattr(e, "_parent", None) is not None else None)
+            grp = _answer_frames(fr, ac[0], comp if ac[1] is None else None, lambda h, v: [] if v is not None else None) if ac is not None and (ac[1] is None) else None
+            if grp:
+                olds = 0
+                for g in grp:
+                    x = _component(ctx.repo, g.fi, g.site.value, comp) if isinstance(g.site, ast.Return) and g.site.value is not None else None
+                    if x is None:
+                        return False
+                    if _is_none(x):
+                        continue
+                    if not is_old_in(g, x):
+                        return False
+                    olds += 1
+                ts = _call_targets(ctx, fr.fi, ac[0]) or []
+                if olds and len(grp) == sum(len(_returns(h)) for h, _ in ts):
+                    return True
         el = strip_cast(e)
         if isinstance(el, ast.Name) and element_loops(fr, el) or isinstance(r, ast.Subscript) and is_list_in(fr, r.value):
             x = el if isinstance(el, ast.Name) else r
@@ -1658,7 +2935,11 @@ def _put_version_guard(ctx: Ctx, put: FuncInfo):
             return False
         if f.op == "is" and f.pos and _is_none(f.right):
             l = strip_cast(f.left)
-            return isinstance(l, ast.Name) and fr.text(l, follow=False) in idx_names or searched_entry(fr, l) or is_lookup_helper_result(fr, l)
+            if isinstance(l, ast.Name) and fr.text(l, follow=False) in idx_names or searched_entry(fr, l) or is_lookup_helper_result(fr, l):
+                return True
+            return _is_none(idx_sentinel(fr, l))
+        if miss_fact(fr, f, True):
+            return True
         return f.op == "in" and not f.pos and is_new_in(fr, f.left) and is_list_in(fr, f.right)
 
     def is_lookup_helper_result(fr: _Frame, l) -> bool:
@@ -1691,7 +2972,12 @@ def _put_version_guard(ctx: Ctx, put: FuncInfo):
         fs = g.facts()
         if any(not_older(g, f) or not_found(g, f) for f in fs):
             return True
-        return any(pol is False and search_exhausted(g, l) for l, pol in g.loop_facts())
+        if any(f.op == "is" and f.pos and _is_none(f.right) and is_old_in(g, f.left) for f in g.extra):
+            return True                                # this return answers with a stored entry, the caller saw None: not this return
+        if any(pol is False and search_exhausted(g, l) for l, pol in g.loop_facts()):
+            return True
+        # inside a helper: the same path query as in put itself (e.g. a return in the handler of the helper's own failed lookup)
+        return g.up is not None and g.depth <= 2 and not g.ctx_up and site_guarded(g)[0]
 
     edge_cache: dict = {}
 
@@ -1810,6 +3096,15 @@ def rule_storage(ctx: Ctx) -> None:
     for st, targets, value in _assignments(put):
         if any(isinstance(t, ast.Subscript) and is_list(t.value) for t in targets) and is_new(value):
             ins.append(st)
+        # the list rebuilt around the new value: <list>[:] = [new, *<others>]  /  self.items[key] = [new] + <others>
+        v = strip_cast(value)
+        shown = list(v.elts) if isinstance(v, ast.List) else list(v.left.elts) + (list(v.right.elts) if isinstance(v.right, ast.List) else []) \
+            if isinstance(v, ast.BinOp) and isinstance(v.op, ast.Add) and isinstance(v.left, ast.List) else \
+            list(v.right.elts) if isinstance(v, ast.BinOp) and isinstance(v.op, ast.Add) and isinstance(v.right, ast.List) else []
+        whole = [t for t in targets if is_list(t) or isinstance(t, ast.Subscript) and isinstance(t.slice, ast.Slice) and t.slice.lower is None
+                 and t.slice.upper is None and t.slice.step is None and is_list(t.value)]
+        if whole and any(is_new(x) for x in shown):
+            ins.append(st)
     assigns_old = [t for nd in walk_no_nested(put.node) if isinstance(nd, (ast.Assign, ast.AugAssign, ast.AnnAssign))
                    for t in (nd.targets if isinstance(nd, ast.Assign) else [nd.target]) if isinstance(t, ast.Attribute) and is_old(t.value)]
     copied = {t.attr for t in assigns_old}
@@ -1853,8 +3148,16 @@ def rule_storage(ctx: Ctx) -> None:
             return r.id in list_names
         return isinstance(r, ast.Subscript) and chain(r.value) == "self.items" and isinstance(r.slice, ast.Name) and r.slice.id in key_names
 
-    def mentions_vals(e):
-        return any(is_vals(x) for x in ast.walk(e) if isinstance(x, (ast.Name, ast.Subscript)))
+    def mentions_vals(e, depth=0):
+        """the iterable is (derived from) the key's list: the list itself, enumerate / range(len(..)) of it, a comprehension over it"""
+        for x in ast.walk(e):
+            if isinstance(x, (ast.Name, ast.Subscript)) and is_vals(x):
+                return True
+            if isinstance(x, ast.Name) and depth < 3 and x.id not in cl.params():
+                d = single_def(cl, x.id)
+                if d is not None and d[1] is None and not isinstance(strip_cast(d[0]), ast.Name) and mentions_vals(d[0], depth + 1):
+                    return True
+        return False
 
     inner = [l for l in fors if any(o in list(ancestors(l)) for o in outer) and mentions_vals(l.iter)]
 
@@ -1863,28 +3166,22 @@ def rule_storage(ctx: Ctx) -> None:
         return len(fs) == 1 and fs[0].op == "truthy" and not fs[0].pos and isinstance(fs[0].left, ast.Attribute) and fs[0].left.attr == "expired" \
             and isinstance(fs[0].left.value, ast.Name) and fs[0].left.value.id == var
 
-    # `<list>[:] = [v for v in <list> if not v.expired]`: examines every value, drops exactly the expired ones
+    # `<list>[:] = [v for v in <list> if not v.expired]`: examines every value, drops exactly the expired ones; the same
+    # elements are kept by filter(lambda v: not v.expired, <list>), filterfalse(attrgetter("expired"), <list>), ...
     filters = []
     for st, targets, value in _assignments(cl):
-        v = strip_cast(value)
-        if isinstance(v, ast.ListComp) and len(v.generators) == 1 and len(targets) == 1 and any(o in list(ancestors(st)) for o in outer):
-            g = v.generators[0]
-            t = targets[0]
-            tgt_ok = isinstance(t, ast.Subscript) and (is_vals(t) or isinstance(t.slice, ast.Slice) and t.slice.lower is None and t.slice.upper is None
-                                                        and t.slice.step is None and is_vals(t.value))
-            if tgt_ok and isinstance(g.target, ast.Name) and isinstance(v.elt, ast.Name) and v.elt.id == g.target.id and is_vals(_unwrap_iter(g.iter)) \
-                    and len(g.ifs) == 1 and not_expired(g.ifs[0], g.target.id):
-                filters.append(st)
-    # filter(lambda v: not v.expired, <list>) keeps the same elements as the comprehension
-    for st, targets, value in _assignments(cl):
-        v = _unwrap_iter(value)
-        if isinstance(v, ast.Call) and chain(v.func) == "filter" and len(v.args) == 2 and isinstance(v.args[0], ast.Lambda) and len(v.args[0].args.args) == 1 \
-                and len(targets) == 1 and any(o in list(ancestors(st)) for o in outer):
-            t = targets[0]
-            tgt_ok = isinstance(t, ast.Subscript) and (is_vals(t) or isinstance(t.slice, ast.Slice) and t.slice.lower is None and t.slice.upper is None
-                                                        and t.slice.step is None and is_vals(t.value))
-            if tgt_ok and is_vals(_unwrap_iter(v.args[1])) and not_expired(v.args[0].body, v.args[0].args.args[0].arg):
-                filters.append(st)
+        if len(targets) != 1 or not any(o in list(ancestors(st)) for o in outer):
+            continue
+        t = targets[0]
+        tgt_ok = isinstance(t, ast.Subscript) and (is_vals(t) or isinstance(t.slice, ast.Slice) and t.slice.lower is None and t.slice.upper is None
+                                                    and t.slice.step is None and is_vals(t.value))
+        gen = _as_genexp(ctx, cl, value) if tgt_ok else None
+        if gen is None or len(gen.generators) != 1:
+            continue
+        g = gen.generators[0]
+        if isinstance(g.target, ast.Name) and isinstance(gen.elt, ast.Name) and gen.elt.id == g.target.id and is_vals(_unwrap_iter(g.iter)) \
+                and len(g.ifs) == 1 and not g.is_async and not_expired(g.ifs[0], g.target.id):
+            filters.append(st)
     # self.items = defaultdict(list, {k: [v for v in vs if not v.expired] for k, vs in self.items.items()}): every key, every value
     for st, targets, value in _assignments(cl):
         if not any(chain(t) == "self.items" for t in targets):
@@ -1905,9 +3202,49 @@ def rule_storage(ctx: Ctx) -> None:
     early = [x for x in ast.walk(cl.node) if isinstance(x, ast.Break) or isinstance(x, ast.Return) and any(isinstance(a, (ast.For, ast.While)) for a in ancestors(x))]
     # a while loop whose continuation depends on an entry being expired stops at the first live one
     early += [w for w in whiles if any(isinstance(x, ast.Attribute) and x.attr == "expired" for x in ast.walk(w.test))]
-    if whiles and not early:
+
+    def full_scan(w: ast.While) -> bool:
+        """`i = 0` / `while i < len(<list>):` where every pass through the body either deletes <list>[i] or steps i by one:
+        the scan looks at every element (a deletion moves the next element to position i)"""
+        fs = _atoms_with_polarity(w.test, True)
+        if len(fs) != 1 or fs[0].op != "lt" or not fs[0].pos or not isinstance(strip_cast(fs[0].left), ast.Name) or w.orelse:
+            return False
+        i = strip_cast(fs[0].left).id
+        ln = resolve(cl, fs[0].right)
+        if not (isinstance(ln, ast.Call) and chain(ln.func) == "len" and len(ln.args) == 1 and is_vals(ln.args[0])):
+            return False
+        steps, inits = [], []
+        for st, val, idx in local_defs(cl, i):
+            if isinstance(st, ast.AugAssign) and isinstance(st.op, ast.Add) and const_value(st.value) == 1 and w in list(ancestors(st)):
+                steps.append(st)
+            elif isinstance(st, (ast.Assign, ast.AnnAssign)) and idx is None and val is not None and const_value(val) == 0 and w not in list(ancestors(st)):
+                inits.append(st)
+            else:
+                return False
+        at_i = lambda e: isinstance(e, ast.Subscript) and is_vals(e.value) and isinstance(e.slice, ast.Name) and e.slice.id == i  # noqa: E731
+        dels = [d for d in ast.walk(w) if isinstance(d, ast.Delete) and len(d.targets) == 1 and at_i(d.targets[0])]
+        dels += [enclosing_stmt(c) for c in ast.walk(w) if isinstance(c, ast.Call) and call_name(c) == "pop" and isinstance(c.func, ast.Attribute)
+                 and is_vals(c.func.value) and len(c.args) == 1 and isinstance(c.args[0], ast.Name) and c.args[0].id == i]
+        if not steps or not inits or not dels or any(isinstance(x, (ast.Break, ast.Return, ast.Continue)) for x in ast.walk(w)):
+            return False
+        # the initialisation reaches the loop: between it and the loop head i is not changed (only the steps inside the loop change it)
+        heads = [n for n in cfgc.nodes if n.kind == "loop" and n.ast is w]
+        progress = [n for st in steps + dels for n in cfgc.nodes_for(st)]
+        tests = [n for n in cfgc.nodes if n.kind == "cond" and n.ast is not None and (n.ast is w.test or w.test in list(ancestors(n.ast)))]
+        body = [v for n in tests for v, lab in n.succ if lab is True]
+        if not heads or not body:
+            return False
+        r = cfgc.reach(body, cut_nodes=progress)
+        return not any(h in r for h in heads)
+    scans = [w for w in whiles if w not in early and any(o in list(ancestors(w)) for o in outer) and full_scan(w)]
+    if any(w not in scans for w in whiles) and not early:
         raise AnalysisError("undecided: Storage.clean sweeps with a while loop whose coverage of the list is not decided")
-    swept = bool(outer) and (bool(inner) or bool(filters))
+    swept = bool(outer) and (bool(inner) or bool(filters) or bool(scans))
+    rebuilt = [st for st, targets, _v in _assignments(cl) if any(o in list(ancestors(st)) for o in outer)
+               and any(isinstance(t, ast.Subscript) and (is_vals(t) or is_vals(t.value)) for t in targets)]
+    if outer and not swept and not early and rebuilt:
+        # the key's list is rebuilt from something this analysis could not write as a filter over its values
+        raise AnalysisError("undecided: how Storage.clean goes through the values of a key is not decided")
     ctx.check(swept and not early, "expiry-sweep", cl, early[0] if early else cl.node, "clean examines every stored value (no early exit from the sweep)",
               "Storage.clean stops at the first value that has not expired: values are not ordered by remaining lifetime (max_age varies per put), "
               "so an expired value behind a longer-lived one survives maintenance")
@@ -1919,8 +3256,8 @@ def rule_storage(ctx: Ctx) -> None:
         fs = list(facts_at(cfgc, p))
         for l in ancestors(p):
             if isinstance(l, ast.For):
-                inner = _generator_call_as_genexp(ctx, cl, l.iter)
-                if inner is not None:
+                inner = _as_genexp(ctx, cl, l.iter)       # a generator helper, or a collected list `[v for v in values if v.expired]`
+                if inner is not None and len(inner.generators) == 1:
                     fs += [f for t in inner.generators[0].ifs for f in _atoms_with_polarity(t, True)]
         return fs
     ok = (bool(pops) or bool(filters)) and all(any(f.op == "truthy" and f.pos and isinstance(f.left, ast.Attribute) and f.left.attr == "expired"
@@ -1973,7 +3310,8 @@ def rule_store_peer(ctx: Ctx) -> None:
     def p_token(fr: _Frame) -> bool:
         for f in fr.facts():
             if f.op == "truthy" and f.pos and isinstance(f.left, ast.Call) and chain(f.left.func) == "self.check_token" \
-                    and fr.text(arg(f.left, 1)) == f"{payload}.token" and arg(f.left, 0) is not None and sender_node(fr.top(arg(f.left, 0), follow=False)):
+                    and fr.text(arg(f.left, 1, "token")) == f"{payload}.token" and arg(f.left, 0, "node") is not None \
+                    and sender_node(fr.top(arg(f.left, 0, "node"), follow=False)):
                 return True
         return False
 
@@ -1984,6 +3322,8 @@ def rule_store_peer(ctx: Ctx) -> None:
         a = fr.site
         tok, mid = _holds(fr, p_token), _holds(fr, p_mid)
         slot_ok = fr.text(store_slot(fr.fi, a)) in (f"{payload}.target", f"{peer}.mid")   # equal under the `mid` fact
+        if not (tok and mid) and _opaque_decisions(fr):
+            raise AnalysisError(f"undecided: `{norm(_opaque_decisions(fr)[0])}` decides whether on_store_peer_request stores, and what it tests is not decided")
         ctx.check(tok and mid and slot_ok, "store-peer-mid", fr.fi, a,
                   "peer stored only with a valid token for the sender and target == sender's mid",
                   f"a peer can be stored under a key that is not its own mid or without a valid token (token+node={tok} mid={mid})", [str(f) for f in fr.facts()])
@@ -1996,53 +3336,156 @@ def rule_requester_address(ctx: Ctx) -> None:
     when the id is already known.  The token is bound to the requester's *current* address only if Bucket.add refreshes
     that entry's address from the incoming node whenever the id is known: decided as a path query - from the edge that
     establishes `known id`, every path to the exit passes `<entry>.address = <incoming>.address` (or an edge establishing
-    that the two addresses are equal already).
+    that the two addresses are equal already).  `known id` is established by a membership / .get() test, by a completed
+    `self.nodes[<incoming>.id]` lookup (a missing key raises), by a search loop over the table that found the id, or by the
+    answer of a decision helper all of whose matching returns established it; a private helper of Bucket.add that refreshes
+    the entry itself is analysed in the same way with its parameters bound to the arguments.
     """
     repo = ctx.repo
     add = repo.method("Bucket", "add", "ipv8/dht/routing.py")
-    cfg = ctx.cfg(add)
     inc = add.params()[1]
     ctx.check(not local_defs(add, inc), "requester-address", add, add.node, "incoming node parameter not rebound", "Bucket.add rebinds the incoming node")
+    root = _Frame(ctx, add, add.node)
+    n_edges = 0
 
-    def is_entry(e) -> bool:
-        """self.nodes[<incoming>.id] / self.nodes.get(<incoming>.id)"""
-        r = resolve(add, e)
-        if isinstance(r, ast.Subscript) and chain(r.value) == "self.nodes":
-            return _rnorm(add, r.slice) == f"{inc}.id"
-        return isinstance(r, ast.Call) and chain(r.func) == "self.nodes.get" and r.args and _rnorm(add, r.args[0]) == f"{inc}.id"
+    def analyse(fr: _Frame, only_refresh: bool = False):
+        fi, cfg = fr.fi, fr.cfg
+        is_inc = lambda e: e is not None and fr.text(e) == inc  # noqa: E731
+        inc_id = lambda e: e is not None and fr.text(e) == f"{inc}.id"  # noqa: E731
 
-    def addr_of(e, who) -> bool:
-        r = resolve(add, e)
-        return isinstance(r, ast.Attribute) and r.attr == "address" and who(r.value)
+        def table_loop(name: str):
+            """("key" | "value", loop) when name is bound by a loop over the routing entries of this bucket"""
+            for l in ast.walk(fi.node):
+                if not isinstance(l, (ast.For, ast.comprehension)) or len(local_defs(fi, name)) > 1:
+                    continue
+                it, t = chain(_unwrap_iter(l.iter)), l.target
+                if isinstance(t, ast.Name) and t.id == name and it in ("self.nodes", "self.nodes.keys()"):
+                    return "key", l
+                if isinstance(t, ast.Name) and t.id == name and it == "self.nodes.values()":
+                    return "value", l
+                if isinstance(t, ast.Tuple) and len(t.elts) == 2 and it == "self.nodes.items()" and all(isinstance(x, ast.Name) for x in t.elts):
+                    if t.elts[0].id == name:
+                        return "key", l
+                    if t.elts[1].id == name:
+                        return "value", l
+            return None
 
-    is_inc = lambda e: _rnorm(add, e) == inc  # noqa: E731
-    refresh = [st for st, targets, value in _assignments(add) if addr_of(value, is_inc)
-               and any(isinstance(t, ast.Attribute) and t.attr == "address" and is_entry(t.value) for t in targets)]
-    # replacing the entry by the incoming node refreshes the address as well
-    refresh += [st for st, targets, value in _assignments(add) if is_inc(value)
-                and any(isinstance(t, ast.Subscript) and chain(t.value) == "self.nodes" and _rnorm(add, t.slice) == f"{inc}.id" for t in targets)]
-    rn = [n for st in refresh for n in cfg.nodes_for(st)]
+        def found_in_table(f):
+            """the fact says: the element the search loop looks at has the incoming node's id -> the loop, else None"""
+            if f.op != "eq" or not f.pos or f.right is None:
+                return None
+            for x, y in ((f.left, f.right), (f.right, f.left)):
+                if not inc_id(y):
+                    continue
+                x = strip_cast(x)
+                if isinstance(x, ast.Name) and (table_loop(x.id) or ("", None))[0] == "key":
+                    return table_loop(x.id)[1]
+                if isinstance(x, ast.Attribute) and x.attr == "id" and isinstance(x.value, ast.Name) and (table_loop(x.value.id) or ("", None))[0] == "value":
+                    return table_loop(x.value.id)[1]
+            return None
 
-    def known(f) -> bool:
-        if f.op == "in" and f.pos and _rnorm(add, f.left) == f"{inc}.id":
-            return norm(_unwrap_iter(f.right)) in ("self.nodes", "self.nodes.keys()")
-        return _truth_fact(f, lambda e: isinstance(resolve(add, e), ast.Call) and is_entry(e))
+        def is_entry(e, site=None) -> bool:
+            """self.nodes[<incoming>.id] / self.nodes.get(<incoming>.id) / the value a search loop found under the incoming id"""
+            r = resolve(fi, e)
+            if isinstance(r, ast.Subscript) and chain(r.value) == "self.nodes":
+                return inc_id(r.slice)
+            if isinstance(r, ast.Call) and chain(r.func) == "self.nodes.get" and r.args:
+                return inc_id(r.args[0])
+            if isinstance(r, ast.Name) and site is not None and (table_loop(r.id) or ("", None))[0] == "value":
+                l = table_loop(r.id)[1]
+                return any(found_in_table(f) is l for f in facts_at(cfg, site))
+            return False
 
-    def same_address(u, v, lab) -> bool:
-        f = _cond_edge_fact(u, lab)
-        return f is not None and f.op == "eq" and f.pos and f.right is not None and \
-            (addr_of(f.left, is_entry) and addr_of(f.right, is_inc) or addr_of(f.left, is_inc) and addr_of(f.right, is_entry))
+        def addr_of(e, who) -> bool:
+            r = resolve(fi, e)
+            return isinstance(r, ast.Attribute) and r.attr == "address" and who(r.value)
 
-    edges = [(u, v, lab) for u in cfg.nodes if u.kind == "cond" for v, lab in u.succ if lab in (True, False) and known(fact_of(u.ast, lab))]
-    if not edges:
+        refresh = [st for st, targets, value in _assignments(fi) if addr_of(value, is_inc)
+                   and any(isinstance(t, ast.Attribute) and t.attr == "address" and is_entry(t.value, st) for t in targets)]
+        # replacing the entry by the incoming node refreshes the address as well
+        refresh += [st for st, targets, value in _assignments(fi) if is_inc(value)
+                    and any(isinstance(t, ast.Subscript) and chain(t.value) == "self.nodes" and inc_id(t.slice) for t in targets)]
+        rn = [n for st in refresh for n in cfg.nodes_for(st)]
+        if only_refresh:
+            return rn
+        if fr.up is not None and not refresh:
+            return 0                                   # a helper that does not refresh itself: its answer is followed from the caller
+
+        def known(f) -> bool:
+            if f.op == "in" and f.pos and inc_id(f.left):
+                return norm(_unwrap_iter(f.right)) in ("self.nodes", "self.nodes.keys()")
+            if found_in_table(f) is not None:
+                return True
+            return _truth_fact(f, lambda e: isinstance(resolve(fi, e), ast.Call) and is_entry(e))
+
+        def known_by_helper(u, lab) -> bool:
+            """the outcome of the test is the answer of a decision helper, and every return that can give it established `known`"""
+            if fr.depth >= 2:
+                return False
+            f = fact_of(u.ast, lab)
+            grp = _decision_frames(fr.at(u.ast), f)
+            if not grp:
+                return False
+            for g in grp:
+                sub_inc_id = lambda e, g=g: e is not None and g.text(e) == f"{inc}.id"  # noqa: E731
+                ok = False
+                for x in g.facts():
+                    if x.op == "in" and x.pos and sub_inc_id(x.left) and norm(_unwrap_iter(x.right)) in ("self.nodes", "self.nodes.keys()"):
+                        ok = True
+                    if x.op == "eq" and x.pos and x.right is not None:
+                        for p_, q_ in ((x.left, x.right), (x.right, x.left)):
+                            p_ = strip_cast(p_)
+                            for l in ast.walk(g.fi.node):
+                                if isinstance(l, ast.For) and sub_inc_id(q_) and len(local_defs(g.fi, getattr(p_, "id", "")) or [0, 0]) == 1:
+                                    it, t = chain(_unwrap_iter(l.iter)), l.target
+                                    if isinstance(p_, ast.Name) and (isinstance(t, ast.Name) and t.id == p_.id and it in ("self.nodes", "self.nodes.keys()")
+                                                                     or isinstance(t, ast.Tuple) and len(t.elts) == 2 and isinstance(t.elts[0], ast.Name)
+                                                                     and t.elts[0].id == p_.id and it == "self.nodes.items()"):
+                                        ok = True
+                if not ok:
+                    return False
+            # a helper that refreshed the entry itself before it gave this answer has done what the edge asks for (it is analysed below)
+            done = 0
+            for g in grp:
+                hrn = analyse(g, only_refresh=True)
+                if hrn and all(g.cfg.must_complete(n, hrn) for n in g.nodes()):
+                    done += 1
+            return done < len(grp)
+
+        def same_address(u, v, lab) -> bool:
+            f = _cond_edge_fact(u, lab)
+            return f is not None and f.op == "eq" and f.pos and f.right is not None and \
+                (addr_of(f.left, is_entry) and addr_of(f.right, is_inc) or addr_of(f.left, is_inc) and addr_of(f.right, is_entry))
+
+        edges = [(u, v, lab) for u in cfg.nodes if u.kind == "cond" for v, lab in u.succ
+                 if lab in (True, False) and (known(fact_of(u.ast, lab)) or known_by_helper(u, lab))]
+        # a completed `self.nodes[<incoming>.id]` lookup: the id is known (a missing key raises KeyError)
+        for u in cfg.nodes:
+            if u.kind not in ("stmt", "cond") or u.ast is None or u in rn:
+                continue
+            reads = [x for x in walk_no_nested(u.ast) if isinstance(x, ast.Subscript) and isinstance(x.ctx, ast.Load) and chain(x.value) == "self.nodes" and inc_id(x.slice)]
+            if reads and any(lab == "exc" for _v, lab in u.succ):
+                edges += [(u, v, lab) for v, lab in u.succ if lab != "exc"]
+        for u, v, lab in edges:
+            r = cfg.reach([v], cut_nodes=rn, cut_edge=same_address)
+            ctx.check(cfg.exit not in r, "requester-address", fi, u.ast,
+                      "a known routing entry always takes over the address of the incoming node",
+                      "Bucket.add can keep the old address of an already known entry: get_requesting_node returns that entry and check_token hashes "
+                      "str(entry), so a store request from a new address is accepted with the token that was issued to the old address "
+                      "(the token is no longer bound to the requester's address)")
+        return len(edges)
+
+    n_edges += analyse(root)
+    # private helpers Bucket.add hands the incoming node to
+    for c in calls(add):
+        ts = _call_targets(ctx, add, c)
+        if not ts or len(ts) != 1 or not any(_rnorm(add, a) == inc for a in [*c.args, *[k.value for k in c.keywords]]):
+            continue
+        h, bound = ts[0]
+        if h.name.startswith("_") and not h.name.startswith("__") and _used_only_by(repo, h, {add.qualname}):
+            n_edges += analyse(_Frame(ctx, h, h.node, up=root.at(c), call=c, bound=bound, ctx_up=True))
+    if not n_edges:
         raise AnalysisError("undecided: how Bucket.add recognises an already known node id is not decided")
-    for u, v, lab in edges:
-        r = cfg.reach([v], cut_nodes=rn, cut_edge=same_address)
-        ctx.check(cfg.exit not in r, "requester-address", add, u.ast,
-                  "a known routing entry always takes over the address of the incoming node",
-                  "Bucket.add can keep the old address of an already known entry: get_requesting_node returns that entry and check_token hashes "
-                  "str(entry), so a store request from a new address is accepted with the token that was issued to the old address "
-                  "(the token is no longer bound to the requester's address)")
 
 
 def run(ctx: Ctx) -> None:
@@ -2101,6 +3544,30 @@ WITNESSES = [
     {"name": "token secret appended outside token_maintenance", "file": DC, "rule": "token-preimage",
      "old": "        self.ez_send(peer, PingResponsePayload(payload.identifier))",
      "new": "        self.token_secrets.append(data[:20])\n        self.ez_send(peer, PingResponsePayload(payload.identifier))"},
+    {"name": "running maximum over a pipeline keeps the lower version", "file": DC, "rule": "signed-means-verified",
+     "old": "        unpacked: dict[bytes | None, list[tuple[int, bytes]]] = defaultdict(list)\n        for value in values:\n            unserialized = self.unserialize_value(value)\n"
+            "            if unserialized:\n                data, public_key, version = unserialized\n                unpacked[public_key].append((version, data))\n",
+     "new": "        unpacked: dict[bytes | None, list[tuple[int, bytes]]] = defaultdict(list)\n        newest: dict[bytes, tuple[int, bytes]] = {}\n"
+            "        for data, public_key, version in filter(None, map(self.unserialize_value, values)):\n"
+            "            if public_key is None:\n                unpacked[None].append((version, data))\n"
+            "            elif public_key not in newest or version < newest[public_key][0]:\n                newest[public_key] = (version, data)\n"
+            "        for public_key, entry in newest.items():\n            unpacked[public_key] = [entry]\n"},
+    {"name": "position search with a negative `not found` answer used as a position", "file": DS, "rule": "version-monotone",
+     "old": "        try:\n            index = self.items[key].index(new_value)\n            old_value = self.items[key][index]\n            if new_value.version >= old_value.version:\n"
+            "                self.items[key].pop(index)\n                self.items[key].insert(0, new_value)\n                self.items[key].sort(key=lambda v: 1 if v.id == key else 0)\n"
+            "        except ValueError:\n            self.items[key].insert(0, new_value)\n            self.items[key].sort(key=lambda v: 1 if v.id == key else 0)\n",
+     "new": "        stored = self.items[key]\n        index = next((i for i, old_value in enumerate(stored) if old_value == new_value), -1)\n"
+            "        if index >= 0 or new_value.version >= stored[index].version:\n            del stored[index]\n"
+            "        stored.insert(0, new_value)\n        stored.sort(key=lambda v: 1 if v.id == key else 0)\n"},
+    {"name": "token compared through map() with a hash that leaves the requester out", "file": DC, "rule": "token-preimage",
+     "old": "        return any(hashlib.sha1(str(node).encode() + secret).digest() == token for secret in self.token_secrets)",
+     "new": "        return token in map(lambda secret: hashlib.sha1(secret).digest(), self.token_secrets)"},
+    {"name": "decision helper answers BAD_TOKEN but the handler lets it through", "rule": "store-gate",
+     "edits": [{"file": DC, "old": "        if not self.check_token(node, payload.token):\n            self.logger.warning(\"Bad token, dropping packet.\")\n            return\n\n        # How many nodes",
+                "new": "        verdict = self._token_verdict(node, payload)\n        if verdict == \"UNKNOWN\":\n            return\n\n        # How many nodes"},
+               {"file": DC, "old": "    def token_maintenance(self) -> None:",
+                "new": "    def _token_verdict(self, node: Node, payload: StoreRequestPayload) -> str:\n        for _ in range(1):\n            if not self.check_token(node, payload.token):\n"
+                       "                return \"BAD_TOKEN\"\n        return \"OK\"\n\n    def token_maintenance(self) -> None:"}]},
     {"name": "store-peer without token", "file": DD, "rule": "store-peer-mid",
      "old": "        if not self.check_token(node, payload.token):\n            self.logger.warning(\"Bad token, dropping packet.\")\n            return\n        if payload.target != peer.mid:",
      "new": "        if payload.target != peer.mid:"},
